@@ -2,10 +2,10 @@ import GardenVerif.Model.BigStep
 /-! Helper lemmas for C05: the machine model M4 refines the big-step reference interpreter M5.
 
 `Q` = a machine state of an uninterrupted, unlimited run (`garden run`); `runN` iterates
-`Machine.step`; `MS` = "the top frame gets from here to there by `dispatch` steps that stay in
-the frame" (sound w.r.t. `Machine.step`: `MS_sound`); `Holds` = the simulation statement for one
-expression in an arbitrary frame context (pending entries `K`, values `V`); `sim` = the
-simulation lemma, by induction on the big-step fuel. -/
+`Machine.step`; `MS` = "the call stack gets from here to there by machine steps" (sound w.r.t.
+`Machine.step`: `MS_sound`); `Concl` / `Holds` = the simulation statement for one expression in
+an arbitrary frame context (callers `cs`, pending entries `K`, values `V`); one lemma per node
+kind; `sim` = the simulation lemma, by induction on the big-step fuel. -/
 set_option linter.unusedVariables false
 set_option linter.unusedSimpArgs false
 namespace BigStepLemmas
@@ -34,39 +34,74 @@ theorem runN_add (a b : Nat) (s s' : State) (h : runN a s = .cont s') : runN (a 
     cases hs : step s <;> simp [hs] at h ⊢
     · exact ih _ h
 
+theorem runN_step_cont (s s' s'' : State) (n : Nat) (h : step s = .cont s') (h2 : runN n s' = .cont s'') :
+    runN (n + 1) s = .cont s'' := by
+  simp [runN, h, h2]
+
+theorem runN_last (s s' : State) (n : Nat) (r : StepResult) (h : runN n s = .cont s') (hr : step s' = r)
+    (hnc : ∀ x, r ≠ .cont x) : runN (n + 1) s = r := by
+  rw [runN_add n 1 _ _ h]
+  cases r <;> simp_all [runN]
+
 /-- A frame with the given pending entries, values and scopes; the rest from `b`. -/
 def F (b : Frame) (K : List (St × Expr)) (V : List Value) (σ : List Block) : Frame :=
   { exprs := K, values := V, blocks := σ, nextBlock := [], callerUses := b.callerUses, kind := b.kind,
     callerId := b.callerId }
 
-/-- The top frame evolves by `dispatch` steps that neither push nor pop a frame. -/
-inductive MS (p : Program) : Frame → String → Frame → String → Prop
-  | refl (f : Frame) (out : String) : MS p f out f out
-  | ok {f : Frame} {st : St} {e : Expr} {rest : List (St × Expr)} {f' g : Frame} {out out' : String} :
+/-- The call stack evolves by machine steps (dispatch in the top frame, call, frame return). -/
+inductive MS (p : Program) : List Frame → String → List Frame → String → Prop
+  | refl (fs : List Frame) (out : String) : MS p fs out fs out
+  | ok {f : Frame} {cs : List Frame} {st : St} {e : Expr} {rest : List (St × Expr)} {f' : Frame}
+      {T : List Frame} {out out' : String} :
       f.exprs = (st, e) :: rest → dispatch p { f with exprs := rest } st e = .ok f' →
-      MS p f' out g out' → MS p f out g out'
-  | okOut {f : Frame} {st : St} {e : Expr} {rest : List (St × Expr)} {f' g : Frame} {o out out' : String} :
+      MS p (f' :: cs) out T out' → MS p (f :: cs) out T out'
+  | okOut {f : Frame} {cs : List Frame} {st : St} {e : Expr} {rest : List (St × Expr)} {f' : Frame}
+      {T : List Frame} {o out out' : String} :
       f.exprs = (st, e) :: rest → dispatch p { f with exprs := rest } st e = .okOut f' o →
-      MS p f' (out ++ o) g out' → MS p f out g out'
+      MS p (f' :: cs) (out ++ o) T out' → MS p (f :: cs) out T out'
+  | call {f : Frame} {cs : List Frame} {st : St} {e : Expr} {rest : List (St × Expr)} {f' callee : Frame}
+      {T : List Frame} {out out' : String} :
+      f.exprs = (st, e) :: rest → dispatch p { f with exprs := rest } st e = .newFrame f' callee →
+      MS p (callee :: f' :: cs) out T out' → MS p (f :: cs) out T out'
+  | ret {f caller : Frame} {cs : List Frame} {rv : Value} {vs : List Value}
+      {T : List Frame} {out out' : String} :
+      f.exprs = [] → f.values = rv :: vs →
+      MS p ((if f.callerUses then caller.pushV rv else caller) :: cs) out T out' →
+      MS p (f :: caller :: cs) out T out'
 
-theorem MS.trans {p : Program} {f g h : Frame} {o1 o2 o3 : String}
-    (a : MS p f o1 g o2) (b : MS p g o2 h o3) : MS p f o1 h o3 := by
+theorem MS.trans {p : Program} {A B C : List Frame} {o1 o2 o3 : String}
+    (a : MS p A o1 B o2) (b : MS p B o2 C o3) : MS p A o1 C o3 := by
   induction a with
   | refl => exact b
   | ok he hd _ ih => exact MS.ok he hd (ih b)
   | okOut he hd _ ih => exact MS.okOut he hd (ih b)
+  | call he hd _ ih => exact MS.call he hd (ih b)
+  | ret he hv _ ih => exact MS.ret he hv (ih b)
 
-/-- One step from an `F`-frame. -/
-theorem MS.step1 {p : Program} {b : Frame} {st : St} {e : Expr} {K : List (St × Expr)} {V : List Value}
-    {σ : List Block} {f' g : Frame} {out out' : String}
-    (hd : dispatch p (F b K V σ) st e = .ok f') (h : MS p f' out g out') :
-    MS p (F b ((st, e) :: K) V σ) out g out' :=
+/-- One `ok` step from an `F`-frame. -/
+theorem MS.step1 {p : Program} {b : Frame} {cs : List Frame} {st : St} {e : Expr} {K : List (St × Expr)}
+    {V : List Value} {σ : List Block} {f' : Frame} {T : List Frame} {out out' : String}
+    (hd : dispatch p (F b K V σ) st e = .ok f') (h : MS p (f' :: cs) out T out') :
+    MS p (F b ((st, e) :: K) V σ :: cs) out T out' :=
   MS.ok (f := F b ((st, e) :: K) V σ) (rest := K) rfl hd h
+
+theorem MS.one {p : Program} {b : Frame} {cs : List Frame} {st : St} {e : Expr} {K : List (St × Expr)}
+    {V : List Value} {σ : List Block} {f' : Frame} {out : String}
+    (hd : dispatch p (F b K V σ) st e = .ok f') :
+    MS p (F b ((st, e) :: K) V σ :: cs) out (f' :: cs) out :=
+  MS.step1 hd (MS.refl _ _)
 
 /-- The step at which `eval` returns `Err(e)`. -/
 def MErr (p : Program) (f : Frame) (er : Err) : Prop :=
   ∃ st ex rest f' st' vals, f.exprs = (st, ex) :: rest ∧
     dispatch p { f with exprs := rest } st ex = .err f' st' vals er
+
+theorem MErr.mk1 {p : Program} {b : Frame} {st : St} {e : Expr} {K : List (St × Expr)}
+    {V : List Value} {σ : List Block} {er : Err}
+    (h : ∃ f' st' vals, dispatch p (F b K V σ) st e = .err f' st' vals er) :
+    MErr p (F b ((st, e) :: K) V σ) er := by
+  obtain ⟨f', st', vals, h⟩ := h
+  exact ⟨st, e, K, f', st', vals, rfl, h⟩
 
 theorem step_ok (p : Program) (f f' : Frame) (cs : List Frame) (t : Nat) (out : String) (st : St) (e : Expr)
     (rest : List (St × Expr)) (he : f.exprs = (st, e) :: rest)
@@ -80,6 +115,19 @@ theorem step_okOut (p : Program) (f f' : Frame) (cs : List Frame) (t : Nat) (out
     step (Q p (f :: cs) t out) = .cont (Q p (f' :: cs) (t + 1) (out ++ o)) := by
   simp [step, Q, he, limitReached, limitExceeded, hd, stopCheck, setTop]
 
+theorem step_call (p : Program) (f f' callee : Frame) (cs : List Frame) (t : Nat) (out : String) (st : St) (e : Expr)
+    (rest : List (St × Expr)) (he : f.exprs = (st, e) :: rest)
+    (hd : dispatch p { f with exprs := rest } st e = .newFrame f' callee) :
+    step (Q p (f :: cs) t out) = .cont (Q p (callee :: f' :: cs) (t + 1) out) := by
+  simp [step, Q, he, limitReached, limitExceeded, hd, stopCheck, setTop]
+
+theorem step_ret (p : Program) (f caller : Frame) (cs : List Frame) (t : Nat) (out : String) (rv : Value)
+    (vs : List Value) (he : f.exprs = []) (hv : f.values = rv :: vs) :
+    step (Q p (f :: caller :: cs) t out) =
+      .cont (Q p ((if f.callerUses then caller.pushV rv else caller) :: cs) t out) := by
+  simp only [step, Q, he, hv]
+  cases hc : f.callerId <;> simp
+
 theorem step_err (p : Program) (f : Frame) (cs : List Frame) (t : Nat) (out : String) (er : Err)
     (h : MErr p f er) : ∃ s', step (Q p (f :: cs) t out) = .error s' er ∧ s'.out = out := by
   obtain ⟨st, ex, rest, f', st', vals, he, hd⟩ := h
@@ -87,27 +135,39 @@ theorem step_err (p : Program) (f : Frame) (cs : List Frame) (t : Nat) (out : St
   · simp [step, Q, he, limitReached, limitExceeded, hd]
   · simp [setTop, Q]
 
-theorem runN_step_cont (s s' s'' : State) (n : Nat) (h : step s = .cont s') (h2 : runN n s' = .cont s'') :
-    runN (n + 1) s = .cont s'' := by
-  simp [runN, h, h2]
+theorem step_done (p : Program) (f : Frame) (v : Value) (vs : List Value) (t : Nat) (out : String)
+    (he : f.exprs = []) (hv : f.values = v :: vs) :
+    step (Q p [f] t out) = .done (setTop (Q p [f] t out) { f with values := vs }) v := by
+  simp [step, Q, he, hv]
 
-/-- `MS` is sound for the machine: the same frames are reached by iterating `Machine.step`. -/
-theorem MS_sound {p : Program} {f g : Frame} {out out' : String} (h : MS p f out g out') :
-    ∀ (cs : List Frame) (t : Nat), ∃ n, runN n (Q p (f :: cs) t out) = .cont (Q p (g :: cs) (t + n) out') := by
+/-- `MS` is sound for the machine: the same stacks are reached by iterating `Machine.step`. -/
+theorem MS_sound {p : Program} {A B : List Frame} {out out' : String} (h : MS p A out B out') :
+    ∀ (t : Nat), ∃ n t', runN n (Q p A t out) = .cont (Q p B t' out') := by
   induction h with
-  | refl => intro cs t; exact ⟨0, rfl⟩
+  | refl => intro t; exact ⟨0, t, rfl⟩
   | ok he hd _ ih =>
-    intro cs t
-    obtain ⟨n, hn⟩ := ih cs (t + 1)
-    refine ⟨n + 1, ?_⟩
-    rw [show t + (n + 1) = t + 1 + n by omega]
-    exact runN_step_cont _ _ _ _ (step_ok _ _ _ cs t _ _ _ _ he hd) hn
+    intro t
+    obtain ⟨n, t', hn⟩ := ih (t + 1)
+    exact ⟨n + 1, t', runN_step_cont _ _ _ _ (step_ok _ _ _ _ t _ _ _ _ he hd) hn⟩
   | okOut he hd _ ih =>
-    intro cs t
-    obtain ⟨n, hn⟩ := ih cs (t + 1)
-    refine ⟨n + 1, ?_⟩
-    rw [show t + (n + 1) = t + 1 + n by omega]
-    exact runN_step_cont _ _ _ _ (step_okOut _ _ _ cs t _ _ _ _ _ he hd) hn
+    intro t
+    obtain ⟨n, t', hn⟩ := ih (t + 1)
+    exact ⟨n + 1, t', runN_step_cont _ _ _ _ (step_okOut _ _ _ _ t _ _ _ _ _ he hd) hn⟩
+  | call he hd _ ih =>
+    intro t
+    obtain ⟨n, t', hn⟩ := ih (t + 1)
+    exact ⟨n + 1, t', runN_step_cont _ _ _ _ (step_call _ _ _ _ _ t _ _ _ _ he hd) hn⟩
+  | ret he hv _ ih =>
+    intro t
+    obtain ⟨n, t', hn⟩ := ih t
+    exact ⟨n + 1, t', runN_step_cont _ _ _ _ (step_ret _ _ _ _ t _ _ _ he hv) hn⟩
+
+theorem finish_done (p : Program) (s0 : State) (b : Frame) (n t : Nat) (v : Value) (V' : List Value)
+    (σ' : List Block) (out' : String)
+    (hn : runN n s0 = .cont (Q p [F b [] (v :: V') σ'] t out')) :
+    ∃ m s, runN m s0 = .done s v ∧ s.out = out' := by
+  have hd := step_done p (F b [] (v :: V') σ') v V' t out' rfl rfl
+  exact ⟨n + 1, _, runN_last _ _ n _ hn hd (by intro x; simp), by simp [setTop, Q]⟩
 
 /-- Push `v` iff `c`. -/
 def pushIf (c : Bool) (v : Value) (V : List Value) : List Value := if c then v :: V else V
@@ -116,36 +176,60 @@ theorem F_pushVIf (b : Frame) (K : List (St × Expr)) (V : List Value) (σ : Lis
     (F b K V σ).pushVIf c v = F b K (pushIf c v V) σ := by
   cases c <;> rfl
 
+/-- The simulation conclusion for a big-step result `r`, for a machine that started at stack `A`
+with output `out` and whose continuation is: pending entries `K`, values `V` (a value is pushed
+iff `used`), `n` scopes, callers `cs`.
+* value: the machine reaches that continuation with the value pushed and the scopes `r.scopes`;
+* error: the machine reaches a step that returns the same error;
+* `break` / `continue` (only where `bk` / `ck` allow): the machine reaches the frame that
+  dispatching a `break` / `continue` with that continuation produces (whatever it is);
+* `return v`: the machine reaches the finished frame (no pending entries, `v` on top). -/
+def Concl (p : Program) (bk ck : Bool) (A : List Frame) (b : Frame) (cs : List Frame)
+    (K : List (St × Expr)) (V : List Value) (n : Nat) (out : String) (used : Bool) (r : Res) : Prop :=
+  match r.outcome with
+  | .val v => r.scopes.length = n ∧ MS p A out (F b K (pushIf used v V) r.scopes :: cs) r.out
+  | .err er => ∃ g, MS p A out (g :: cs) r.out ∧ MErr p g er
+  | .brk => bk = true ∧ r.scopes.length = n ∧
+      ∀ G, dispatch p (F b K V r.scopes) .N (.brk 0 false) = .ok G → MS p A out (G :: cs) r.out
+  | .cont => ck = true ∧ r.scopes.length = n ∧
+      ∀ G, dispatch p (F b K V r.scopes) .N (.cont 0 false) = .ok G → MS p A out (G :: cs) r.out
+  | .ret v => ∃ V' B', MS p A out (F b [] (v :: V') B' :: cs) r.out
+  | _ => True
+
+/-- Move the start of a conclusion back along machine steps. -/
+theorem Concl.prepend {p : Program} {bk ck : Bool} {A0 A : List Frame} {b : Frame} {cs : List Frame}
+    {K : List (St × Expr)} {V : List Value} {n : Nat} {out0 out : String} {used : Bool} {r : Res}
+    (h0 : MS p A0 out0 A out) (h : Concl p bk ck A b cs K V n out used r) :
+    Concl p bk ck A0 b cs K V n out0 used r := by
+  unfold Concl at h ⊢
+  cases hr : r.outcome <;> simp only [hr] at h ⊢
+  · exact ⟨h.1, h0.trans h.2⟩
+  · exact ⟨h.1, h.2.1, fun G hG => h0.trans (h.2.2 G hG)⟩
+  · exact ⟨h.1, h.2.1, fun G hG => h0.trans (h.2.2 G hG)⟩
+  · obtain ⟨V', B', h1⟩ := h; exact ⟨V', B', h0.trans h1⟩
+  · obtain ⟨g, h1, h2⟩ := h; exact ⟨g, h0.trans h1, h2⟩
+
+/-- A sub-expression in operand position (no exits allowed) that did not produce a value:
+the enclosing expression ends the same way, whatever its own continuation. -/
+theorem Concl.operand_nonval {p : Program} {bk ck : Bool} {A : List Frame} {b : Frame} {cs : List Frame}
+    {K K' : List (St × Expr)} {V V' : List Value} {n n' : Nat} {out : String} {used used' : Bool} {r : Res}
+    (h : Concl p false false A b cs K' V' n' out used' r) (hnv : ∀ v, r.outcome ≠ .val v) :
+    Concl p bk ck A b cs K V n out used r := by
+  unfold Concl at h ⊢
+  cases hr : r.outcome <;> simp only [hr] at h ⊢
+  · exact absurd hr (hnv _)
+  · exact absurd h.1 (by simp)
+  · exact absurd h.1 (by simp)
+  · exact h
+  · exact h
+
 /-- The simulation statement for ONE expression `e` whose big-step evaluation in scopes `σ` with
-output log `out` gave `r`: in any frame with `(N, e)` on top of pending entries `K`, values `V`
-and binding blocks `σ`, the machine reaches the frame with `K`, the blocks `r.scopes`, the value
-pushed iff `e.used`, and the output log `r.out`; if the big-step result is an error the machine
-reaches a step that returns the same error, with the same output log. -/
-def Holds (p : Program) (e : Expr) (σ : List Block) (out : String) (r : Res) : Prop :=
-  ∀ (b : Frame) (K : List (St × Expr)) (V : List Value),
-    match r.outcome with
-    | .val v => r.scopes.length = σ.length ∧
-        MS p (F b ((St.N, e) :: K) V σ) out (F b K (pushIf e.used v V) r.scopes) r.out
-    | .err er => ∃ g, MS p (F b ((St.N, e) :: K) V σ) out g r.out ∧ MErr p g er
-    | .brk => False
-    | .cont => False
-    | .ret _ => False
-    | _ => True
+output log `out` gave `r`. -/
+def Holds (p : Program) (bk ck : Bool) (e : Expr) (σ : List Block) (out : String) (r : Res) : Prop :=
+  ∀ (b : Frame) (cs : List Frame) (K : List (St × Expr)) (V : List Value),
+    Concl p bk ck (F b ((St.N, e) :: K) V σ :: cs) b cs K V σ.length out e.used r
 
-mutual
-/-- The constructs covered by the simulation lemma proved so far. -/
-def covE : Expr → Bool
-  | .int .. | .str .. | .var .. | .invalid .. => true
-  | .paren _ _ e => covE e
-  | _ => false
-def covB : List Expr → Bool
-  | [] => true
-  | e :: rest => covE e && covB rest
-end
-
-/-- The induction hypothesis: the evaluator `ev` is simulated on every covered expression. -/
-def IH (p : Program) (ev : Ev) : Prop :=
-  ∀ (e : Expr) (σ : List Block) (out : String), covE e = true → wfE e = true → Holds p e σ out (ev σ out e)
+-- ------------------------------------------------------------------ scope ADT facts
 
 theorem addNew_length (bs : List Block) (n : String) (v : Value) : (addNew bs n v).length = bs.length := by
   unfold addNew; split
@@ -199,6 +283,42 @@ theorem setExisting_isSome : ∀ (bs : List Block) (n : String) (v : Value),
         | none => simp [hf] at hfa
         | some x => simp [ha]
 
+-- ------------------------------------------------------------------ machine steps, one lemma per node kind
+
+theorem d_int (p : Program) (b : Frame) (K : List (St × Expr)) (V : List Value) (σ : List Block) (id : Nat) (u : Bool)
+    (v : Int64) : dispatch p (F b K V σ) .N (.int id u v) = .ok (F b K (pushIf u (.int v) V) σ) := by
+  simp [dispatch, F_pushVIf, Expr.used]
+
+theorem d_str (p : Program) (b : Frame) (K : List (St × Expr)) (V : List Value) (σ : List Block) (id : Nat) (u : Bool)
+    (t : String) : dispatch p (F b K V σ) .N (.str id u t) = .ok (F b K (pushIf u (.str t) V) σ) := by
+  simp [dispatch, F_pushVIf, Expr.used]
+
+theorem d_var (p : Program) (b : Frame) (K : List (St × Expr)) (V : List Value) (σ : List Block) (id : Nat) (u : Bool)
+    (name : String) :
+    match lookupVar p σ name with
+    | some v => dispatch p (F b K V σ) .N (.var id u name) = .ok (F b K (pushIf u v V) σ)
+    | none => ∃ f' st' vals, dispatch p (F b K V σ) .N (.var id u name) = .err f' st' vals (.noSuchVar name) := by
+  have hg : getVar p (F b K V σ) name = lookupVar p σ name := by
+    simp only [getVar, lookupVar, F]; cases lookupBlocks σ name <;> rfl
+  cases h : lookupVar p σ name <;> simp [dispatch, hg, h, F_pushVIf, Expr.used]
+
+theorem d_paren (p : Program) (b : Frame) (K : List (St × Expr)) (V : List Value) (σ : List Block) (id : Nat) (u : Bool)
+    (e : Expr) : dispatch p (F b K V σ) .N (.paren id u e) = .ok (F b ((.N, e) :: K) V σ) := by
+  simp [dispatch, Frame.pushE, F]
+
+/-- `N` step of a node with one operand (`let`, assignment, `+=`). -/
+theorem d_unary_N (p : Program) (b : Frame) (K : List (St × Expr)) (V : List Value) (σ : List Block) (e inner : Expr)
+    (h : (∃ id u d, e = .letE id u d inner) ∨ (∃ id u n, e = .assign id u n inner) ∨
+         (∃ id u a n, e = .update id u a n inner)) :
+    dispatch p (F b K V σ) .N e = .ok (F b ((.N, inner) :: (.E, e) :: K) V σ) := by
+  rcases h with ⟨id, u, d, rfl⟩ | ⟨id, u, n, rfl⟩ | ⟨id, u, a, n, rfl⟩ <;> simp [dispatch, Frame.pushE, F]
+
+theorem d_binop_N (p : Program) (b : Frame) (K : List (St × Expr)) (V : List Value) (σ : List Block) (id : Nat) (u : Bool)
+    (op : BinOp) (l r : Expr) :
+    dispatch p (F b K V σ) .N (.binop id u op l r) =
+      .ok (F b ((.N, l) :: (.N, r) :: (.E, .binop id u op l r) :: K) V σ) := by
+  simp [dispatch, Frame.pushE, F]
+
 /-- The `E` step of a binary operator does what `BigStep.binop` says. -/
 theorem binop_E (p : Program) (b : Frame) (K : List (St × Expr)) (V : List Value) (σ : List Block)
     (id : Nat) (u : Bool) (op : BinOp) (l r : Expr) (lv rv : Value) :
@@ -210,118 +330,1724 @@ theorem binop_E (p : Program) (b : Frame) (K : List (St × Expr)) (V : List Valu
     (try (repeat' split)) <;> simp_all [F_pushVIf, F, Frame.pushVIf, Frame.pushV, pushIf] <;>
     (try (cases u <;> simp_all))
 
-/-- Evaluate a used sub-expression on top of the pending entries `K'`. -/
-theorem Holds.use {p : Program} {e : Expr} {σ : List Block} {out : String} {r : Res}
-    (h : Holds p e σ out r) (hu : e.used = true) (b : Frame) (K : List (St × Expr)) (V : List Value) :
-    match r.outcome with
-    | .val v => r.scopes.length = σ.length ∧ MS p (F b ((St.N, e) :: K) V σ) out (F b K (v :: V) r.scopes) r.out
-    | .err er => ∃ g, MS p (F b ((St.N, e) :: K) V σ) out g r.out ∧ MErr p g er
-    | .brk => False | .cont => False | .ret _ => False
-    | _ => True := by
-  have := h b K V
-  simp only [hu, pushIf] at this
-  exact this
+theorem let_E (p : Program) (b : Frame) (K : List (St × Expr)) (V : List Value) (σ : List Block)
+    (id : Nat) (u : Bool) (dest : Dest) (inner : Expr) (v : Value) :
+    match destructure dest v (.typeError "Tuple") with
+    | .ok binds => dispatch p (F b K (v :: V) σ) .E (.letE id u dest inner) =
+        .ok (F b K (pushIf u vUnit V) (declareAll σ binds))
+    | .error er => ∃ f' st' vals, dispatch p (F b K (v :: V) σ) .E (.letE id u dest inner) = .err f' st' vals er := by
+  cases dest with
+  | sym n => simp [destructure, dispatch, declareAll, F, Frame.pushVIf, Frame.pushV, pushIf, Expr.used]; cases u <;> rfl
+  | destr names =>
+    cases v <;> simp [destructure, dispatch, F]
+    case tuple items =>
+      by_cases hl : items.length = names.length
+      · simp [hl, declareAll, Frame.pushVIf, Frame.pushV, pushIf, Expr.used]; cases u <;> rfl
+      · simp [hl]
 
-theorem sim_succ (ap : Ap) (p : Program) (n : Nat) (ih : IH p (evalWith ap p n)) : IH p (evalWith ap p (n + 1)) := by
-  intro e σ out hc hw
-  cases e <;> (try simp [covE] at hc)
-  case int id u v =>
-    intro b K V
-    simp only [evalWith]
-    exact ⟨by simp, MS.step1 (by simp [dispatch, F_pushVIf, Expr.used]) (MS.refl _ _)⟩
-  case str id u t =>
-    intro b K V
-    simp only [evalWith]
-    exact ⟨by simp, MS.step1 (by simp [dispatch, F_pushVIf, Expr.used]) (MS.refl _ _)⟩
-  case invalid id u =>
-    intro b K V
-    simp only [evalWith]
-    exact ⟨_, MS.refl _ _, ⟨.N, _, K, _, _, _, rfl, by simp [dispatch]; exact ⟨rfl, rfl, rfl⟩⟩⟩
-  case var id u name =>
-    intro b K V
-    simp only [evalWith, lookupVar]
-    cases hl : lookupBlocks σ name with
-    | some v =>
-      simp only
-      exact ⟨by simp, MS.step1 (by simp [dispatch, getVar, F, hl, Frame.pushVIf, Frame.pushV, pushIf, Expr.used]; cases u <;> rfl) (MS.refl _ _)⟩
+theorem assign_E (p : Program) (b : Frame) (K : List (St × Expr)) (V : List Value) (σ : List Block)
+    (id : Nat) (u : Bool) (name : String) (inner : Expr) (v : Value) :
+    match setExisting σ name v with
+    | some σ' => dispatch p (F b K (v :: V) σ) .E (.assign id u name inner) = .ok (F b K (pushIf u vUnit V) σ')
+    | none => ∃ f' st' vals, dispatch p (F b K (v :: V) σ) .E (.assign id u name inner) =
+        .err f' st' vals (.notBound name) := by
+  have hs := setExisting_isSome σ name v
+  cases h : setExisting σ name v with
+  | none =>
+    have : (lookupBlocks σ name).isNone = true := by
+      rw [h] at hs; cases h2 : lookupBlocks σ name <;> simp [h2] at hs ⊢
+    simp [dispatch, F, this]
+  | some σ' =>
+    have : (lookupBlocks σ name).isNone = false := by
+      rw [h] at hs; cases h2 : lookupBlocks σ name <;> simp [h2] at hs ⊢
+    simp [dispatch, F, this, h, Frame.pushVIf, Frame.pushV, pushIf, Expr.used]; cases u <;> rfl
+
+theorem findVariant_shape : ∀ (enums : List EnumDef) (name : String) (v : Value), findVariant enums name = some v →
+    (∃ t i, v = .enumC t i) ∨ (∃ t i, v = .enumV t i none)
+  | [], name, v, h => by simp [findVariant] at h
+  | e :: es, name, v, h => by
+      have ih := findVariant_shape es name v
+      unfold findVariant at h ih
+      simp only [List.findSome?_cons] at h
+      split at h
+      · rename_i b hb
+        cases h
+        split at hb
+        · simp at hb
+        · split at hb
+          · simp at hb; exact Or.inl ⟨_, _, hb.symm⟩
+          · simp at hb; exact Or.inr ⟨_, _, hb.symm⟩
+          · simp at hb
+      · exact ih h
+
+theorem nsLookup_not_int (p : Program) (name : String) (c : Int64) : nsLookup p name ≠ some (.int c) := by
+  unfold nsLookup
+  split
+  · simp
+  · split
+    · rename_i v hv
+      rcases findVariant_shape _ _ _ hv with ⟨t, i, rfl⟩ | ⟨t, i, rfl⟩ <;> simp
+    · split <;> simp
+
+theorem update_E (p : Program) (b : Frame) (K : List (St × Expr)) (V : List Value) (σ : List Block)
+    (id : Nat) (u isAdd : Bool) (name : String) (inner : Expr) (dv : Value) :
+    match lookupVar p σ name with
+    | none => ∃ f' st' vals, dispatch p (F b K (dv :: V) σ) .E (.update id u isAdd name inner) =
+        .err f' st' vals (.notBound name)
+    | some (.int cur) =>
+      match dv with
+      | .int d =>
+        match setExisting σ name (.int (if isAdd then cur + d else cur - d)) with
+        | some σ' => dispatch p (F b K (dv :: V) σ) .E (.update id u isAdd name inner) =
+            .ok (F b K (pushIf u vUnit V) σ')
+        | none => False
+      | _ => ∃ f' st' vals, dispatch p (F b K (dv :: V) σ) .E (.update id u isAdd name inner) =
+          .err f' st' vals (.typeError "Int")
+    | some _ => ∃ f' st' vals, dispatch p (F b K (dv :: V) σ) .E (.update id u isAdd name inner) =
+        .err f' st' vals (.typeError "Int") := by
+  have hg : getVar p (F b K (dv :: V) σ) name = lookupVar p σ name := by
+    simp only [getVar, lookupVar, F]; cases lookupBlocks σ name <;> rfl
+  have hg' := hg
+  simp only [F] at hg'
+  cases h : lookupVar p σ name with
+  | none => simp [dispatch, F, hg', h]
+  | some cv =>
+    cases cv <;> simp only [] <;> (try (simp [dispatch, F, hg', h]; done))
+    case int cur =>
+      cases dv <;> simp only [] <;> (try (simp [dispatch, F, hg', h]; done))
+      case int d =>
+        have hl : lookupBlocks σ name = some (.int cur) := by
+          unfold lookupVar at h
+          cases hb : lookupBlocks σ name with
+          | some x => simp [hb] at h; rw [h]
+          | none => simp [hb] at h; exact absurd h (nsLookup_not_int p name cur)
+        have hs := setExisting_isSome σ name (.int (if isAdd then cur + d else cur - d))
+        rw [hl] at hs
+        cases hse : setExisting σ name (.int (if isAdd then cur + d else cur - d)) with
+        | none => simp [hse] at hs
+        | some σ' =>
+          simp only []
+          simp [dispatch, F, hg', h, hse, Frame.pushVIf, Frame.pushV, pushIf, Expr.used]
+          cases u <;> rfl
+
+theorem foldl_pushE (items : List Expr) (b : Frame) (K : List (St × Expr)) (V : List Value) (σ : List Block) :
+    items.foldl (fun f x => f.pushE .N x) (F b K V σ) =
+      F b (items.reverse.map (fun e => (St.N, e)) ++ K) V σ := by
+  induction items generalizing K with
+  | nil => rfl
+  | cons x xs ih =>
+    simp only [List.foldl]
+    have : (F b K V σ).pushE .N x = F b ((.N, x) :: K) V σ := rfl
+    rw [this, ih]
+    simp
+
+theorem popN_append (vs V : List Value) : popN vs.length (vs ++ V) = some (vs, V) := by
+  induction vs with
+  | nil => rfl
+  | cons v vs ih => simp [popN, ih]
+
+theorem d_list_N (p : Program) (b : Frame) (K : List (St × Expr)) (V : List Value) (σ : List Block) (id : Nat) (u : Bool)
+    (items : List Expr) :
+    dispatch p (F b K V σ) .N (.list id u items) =
+      .ok (F b (items.reverse.map (fun e => (St.N, e)) ++ (.E, .list id u items) :: K) V σ) := by
+  have : (F b K V σ).pushE .E (.list id u items) = F b ((.E, .list id u items) :: K) V σ := rfl
+  simp [dispatch, this, foldl_pushE]
+
+theorem d_tuple_N (p : Program) (b : Frame) (K : List (St × Expr)) (V : List Value) (σ : List Block) (id : Nat) (u : Bool)
+    (items : List Expr) :
+    dispatch p (F b K V σ) .N (.tuple id u items) =
+      .ok (F b (items.reverse.map (fun e => (St.N, e)) ++ (.E, .tuple id u items) :: K) V σ) := by
+  have : (F b K V σ).pushE .E (.tuple id u items) = F b ((.E, .tuple id u items) :: K) V σ := rfl
+  simp [dispatch, this, foldl_pushE]
+
+theorem list_E (p : Program) (b : Frame) (K : List (St × Expr)) (V : List Value) (σ : List Block) (id : Nat) (u : Bool)
+    (items : List Expr) (vs : List Value) (hl : vs.length = items.length) :
+    dispatch p (F b K (vs ++ V) σ) .E (.list id u items) = .ok (F b K (pushIf u (.list vs) V) σ) := by
+  have := popN_append vs V
+  rw [hl] at this
+  simp [dispatch, F, this, Frame.pushVIf, Frame.pushV, pushIf, Expr.used]; cases u <;> rfl
+
+theorem tuple_E (p : Program) (b : Frame) (K : List (St × Expr)) (V : List Value) (σ : List Block) (id : Nat) (u : Bool)
+    (items : List Expr) (vs : List Value) (hl : vs.length = items.length) :
+    dispatch p (F b K (vs ++ V) σ) .E (.tuple id u items) = .ok (F b K (pushIf u (.tuple vs) V) σ) := by
+  have := popN_append vs V
+  rw [hl] at this
+  simp [dispatch, F, this, Frame.pushVIf, Frame.pushV, pushIf, Expr.used]; cases u <;> rfl
+
+-- ------------------------------------------------------------------ break / continue through pending entries
+
+theorem brk_skipN (K : List (St × Expr)) (V : List Value) (B : List Block) (x : Expr) :
+    evalBreakLoop ((St.N, x) :: K) V B = evalBreakLoop K V B := by
+  cases x <;> simp [evalBreakLoop, ownsBlock]
+
+theorem cont_skipN (K : List (St × Expr)) (V : List Value) (B : List Block) (x : Expr) :
+    evalContinueLoop ((St.N, x) :: K) V B = evalContinueLoop K V B := by
+  cases x <;> simp [evalContinueLoop, ownsBlock, Expr.isLoop]
+
+theorem d_brk_eq (p : Program) (b : Frame) (K K' : List (St × Expr)) (V V' : List Value) (B B' : List Block)
+    (h : evalBreakLoop K V B = evalBreakLoop K' V' B') :
+    dispatch p (F b K V B) .N (.brk 0 false) = dispatch p (F b K' V' B') .N (.brk 0 false) := by
+  simp only [dispatch, F, h]
+
+theorem d_cont_eq (p : Program) (b : Frame) (K K' : List (St × Expr)) (V V' : List Value) (B B' : List Block)
+    (h : evalContinueLoop K V B = evalContinueLoop K' V' B') :
+    dispatch p (F b K V B) .N (.cont 0 false) = dispatch p (F b K' V' B') .N (.cont 0 false) := by
+  simp only [dispatch, F, h]
+
+theorem brk_skipNs (K : List (St × Expr)) (V : List Value) (B : List Block) (xs : List Expr) :
+    evalBreakLoop (xs.map (fun e => (St.N, e)) ++ K) V B = evalBreakLoop K V B := by
+  induction xs with
+  | nil => rfl
+  | cons x xs ih => simp only [List.map, List.cons_append, brk_skipN, ih]
+
+theorem cont_skipNs (K : List (St × Expr)) (V : List Value) (B : List Block) (xs : List Expr) :
+    evalContinueLoop (xs.map (fun e => (St.N, e)) ++ K) V B = evalContinueLoop K V B := by
+  induction xs with
+  | nil => rfl
+  | cons x xs ih => simp only [List.map, List.cons_append, cont_skipN, ih]
+
+/-- Is `e` an `if` or a `match` (a node whose `E` continuation owns the block it entered)? -/
+def isBlockOwner : Expr → Bool
+  | .ifE .. => true
+  | .matchE .. => true
+  | _ => false
+
+theorem brk_skipOwner (K : List (St × Expr)) (V : List Value) (x y : Block) (B : List Block) (e : Expr)
+    (h : isBlockOwner e = true) :
+    evalBreakLoop ((St.E, e) :: K) V (x :: y :: B) = evalBreakLoop K V (y :: B) := by
+  cases e <;> simp [isBlockOwner] at h <;> simp [evalBreakLoop, ownsBlock, popBlocks1]
+
+theorem cont_skipOwner (K : List (St × Expr)) (V : List Value) (x y : Block) (B : List Block) (e : Expr)
+    (h : isBlockOwner e = true) :
+    evalContinueLoop ((St.E, e) :: K) V (x :: y :: B) = evalContinueLoop K V (y :: B) := by
+  cases e <;> simp [isBlockOwner] at h <;> simp [evalContinueLoop, ownsBlock, popBlocks1, Expr.isLoop]
+
+/-- A statement that did not produce a value: the statements after it (not started) are skipped
+by `break` / `continue`, and are irrelevant for errors and `return`. -/
+theorem Concl.skipNs {p : Program} {bk ck : Bool} {A : List Frame} {b : Frame} {cs : List Frame}
+    {K : List (St × Expr)} {xs : List Expr} {V : List Value} {n : Nat} {out : String} {used used' : Bool} {r : Res}
+    (h : Concl p bk ck A b cs (xs.map (fun e => (St.N, e)) ++ K) V n out used r) (hnv : ∀ v, r.outcome ≠ .val v) :
+    Concl p bk ck A b cs K V n out used' r := by
+  unfold Concl at h ⊢
+  cases hr : r.outcome <;> simp only [hr] at h ⊢
+  · exact absurd hr (hnv _)
+  · refine ⟨h.1, h.2.1, fun G hG => h.2.2 G ?_⟩
+    rw [d_brk_eq p b _ K V V r.scopes r.scopes (brk_skipNs K V r.scopes xs)]; exact hG
+  · refine ⟨h.1, h.2.1, fun G hG => h.2.2 G ?_⟩
+    rw [d_cont_eq p b _ K V V r.scopes r.scopes (cont_skipNs K V r.scopes xs)]; exact hG
+  · exact h
+  · exact h
+
+/-- The induction hypothesis: the evaluator `ev` is simulated on every expression of stage `L`
+(with the parser's use flags and exits in statement position), in any non-empty scopes. -/
+def IH (p : Program) (L : Nat) (ev : Ev) : Prop :=
+  ∀ (bk ck : Bool) (e : Expr) (σ : List Block) (out : String), σ ≠ [] → lvE e ≤ L → wfE e = true →
+    exE bk ck e = true → Holds p bk ck e σ out (ev σ out e)
+
+theorem ne_nil_of_len {α : Type} {a b : List α} (h : a.length = b.length) (hb : b ≠ []) : a ≠ [] := by
+  intro ha; subst ha; cases b <;> simp_all
+
+
+-- ==================================================================== (BS2.lean)
+
+/-- Conclusion for operands evaluated right-to-left: all values on the stack, first operand on top. -/
+def ConclL (p : Program) (A : List Frame) (b : Frame) (cs : List Frame) (K : List (St × Expr)) (V : List Value)
+    (n : Nat) (out : String) (len : Nat) (r : ResL) : Prop :=
+  match r.result with
+  | .ok vs => vs.length = len ∧ r.scopes.length = n ∧ MS p A out (F b K (vs ++ V) r.scopes :: cs) r.out
+  | .error o => (∀ v, o ≠ .val v) ∧ Concl p false false A b cs K V n out false ⟨r.scopes, r.out, o⟩
+
+theorem lvB_cons (e : Expr) (rest : List Expr) (L : Nat) (h : lvB (e :: rest) ≤ L) : lvE e ≤ L ∧ lvB rest ≤ L := by
+  simp only [lvB] at h; omega
+
+theorem sim_rtl {p : Program} {L : Nat} {ev : Ev} (ih : IH p L ev) :
+    ∀ (items : List Expr) (σ : List Block) (out : String), σ ≠ [] → lvB items ≤ L → wfAll items = true →
+      exAll items = true → ∀ (b : Frame) (cs : List Frame) (K : List (St × Expr)) (V : List Value),
+      ConclL p (F b (items.reverse.map (fun e => (St.N, e)) ++ K) V σ :: cs) b cs K V σ.length out items.length
+        (evalRtl ev items σ out)
+  | [], σ, out, hσ, hl, hw, hx, b, cs, K, V => by
+      simp only [evalRtl, ConclL, List.reverse_nil, List.map_nil, List.nil_append, List.length_nil]
+      exact ⟨trivial, trivial, MS.refl _ _⟩
+  | e :: rest, σ, out, hσ, hl, hw, hx, b, cs, K, V => by
+      have hl2 := lvB_cons e rest L hl
+      simp only [wfAll, exAll, Bool.and_eq_true] at hw hx
+      have h1 := sim_rtl ih rest σ out hσ hl2.2 hw.2 hx.2 b cs ((St.N, e) :: K) V
+      have hA : (e :: rest).reverse.map (fun e => (St.N, e)) ++ K =
+          rest.reverse.map (fun e => (St.N, e)) ++ ((St.N, e) :: K) := by simp
+      rw [hA]
+      simp only [evalRtl]
+      generalize evalRtl ev rest σ out = r at h1 ⊢
+      obtain ⟨s1, o1, res⟩ := r
+      cases res with
+      | error o =>
+        simp only [ConclL] at h1 ⊢
+        exact ⟨h1.1, h1.2.operand_nonval h1.1⟩
+      | ok vs =>
+        simp only [ConclL] at h1
+        obtain ⟨hlen, hsc, hms⟩ := h1
+        have h2 := ih false false e s1 o1 (ne_nil_of_len hsc hσ) hl2.1 hw.1.2 hx.1 b cs K (vs ++ V)
+        simp only []
+        generalize ev s1 o1 e = r1 at h2 ⊢
+        obtain ⟨s2, o2, oc⟩ := r1
+        have h3 := Concl.prepend hms h2
+        cases oc
+        case val v =>
+          simp only [ConclL, Concl, hw.1.1, pushIf] at h3 ⊢
+          exact ⟨by simp [hlen], by omega, by simpa using h3.2⟩
+        all_goals (
+          simp only [ConclL]
+          exact ⟨by intro v; simp, h3.operand_nonval (by intro v; simp)⟩)
+
+/-- Statements of a block whose value is used iff `u`. -/
+theorem sim_seq {p : Program} {L : Nat} {ev : Ev} (ih : IH p L ev) (u bk ck : Bool) :
+    ∀ (body : List Expr) (last : Value) (σ : List Block) (out : String), σ ≠ [] → lvB body ≤ L →
+      wfB u body = true → exB bk ck body = true →
+      ∀ (b : Frame) (cs : List Frame) (K : List (St × Expr)) (V : List Value),
+      Concl p bk ck (F b (body.map (fun e => (St.N, e)) ++ K) V σ :: cs) b cs K V σ.length out
+        (u && !body.isEmpty) (evalSeq ev last body σ out)
+  | [], last, σ, out, hσ, hl, hw, hx, b, cs, K, V => by
+      simp only [evalSeq, Concl, List.map_nil, List.nil_append, List.isEmpty_nil, Bool.not_true, Bool.and_false, pushIf]
+      exact ⟨trivial, MS.refl _ _⟩
+  | e :: rest, last, σ, out, hσ, hl, hw, hx, b, cs, K, V => by
+      have hl2 := lvB_cons e rest L hl
+      simp only [wfB, exB, Bool.and_eq_true, beq_iff_eq] at hw hx
+      have h1 := ih bk ck e σ out hσ hl2.1 hw.1.2 hx.1 b cs (rest.map (fun e => (St.N, e)) ++ K) V
+      simp only [evalSeq, List.map_cons, List.cons_append]
+      generalize ev σ out e = r1 at h1 ⊢
+      obtain ⟨s1, o1, oc⟩ := r1
+      cases oc
+      case val v =>
+        simp only []
+        have h1' := h1
+        simp only [Concl] at h1'
+        have h2 := sim_seq ih u bk ck rest v s1 o1 (ne_nil_of_len h1'.1 hσ) hl2.2 hw.2 hx.2 b cs K
+          (pushIf e.used v V)
+        have h3 := Concl.prepend h1'.2 h2
+        cases rest with
+        | nil =>
+          simp only [evalSeq, Concl, List.isEmpty_nil, Bool.not_true, Bool.and_false, pushIf,
+            List.isEmpty_cons, Bool.not_false, Bool.and_true] at h3 ⊢
+          rw [hw.1.1] at h3
+          simp only [List.isEmpty_nil, Bool.and_true] at h3
+          exact ⟨by omega, h3.2⟩
+        | cons x xs =>
+          rw [hw.1.1] at h3
+          simp only [List.isEmpty_cons, Bool.and_false, pushIf, Bool.false_eq_true, if_false, Bool.not_false,
+            Bool.and_true] at h3 ⊢
+          unfold Concl at h3 ⊢
+          cases hr : (evalSeq ev v (x :: xs) s1 o1).outcome <;> simp only [hr] at h3 ⊢
+          · exact ⟨by omega, h3.2⟩
+          · exact ⟨h3.1, by omega, h3.2.2⟩
+          · exact ⟨h3.1, by omega, h3.2.2⟩
+          · exact h3
+          · exact h3
+      all_goals (
+        simp only []
+        exact h1.skipNs (by intro v; simp))
+
+-- ------------------------------------------------------------------ blocks, if, match
+
+theorem evalBlock_F (b : Frame) (K : List (St × Expr)) (V : List Value) (σ : List Block) (bs : Block)
+    (used : Bool) (body : List Expr) :
+    evalBlock { F b K V σ with nextBlock := bs } used body =
+      F b (body.map (fun e => (St.N, e)) ++ K) (pushIf (used && body.isEmpty) vUnit V)
+        (declareAll ([] :: σ) bs) := by
+  unfold evalBlock
+  simp only [F, declareAll, pushIf]
+  split <;> simp_all [Frame.pushV]
+
+theorem evalBlock_F0 (b : Frame) (K : List (St × Expr)) (V : List Value) (σ : List Block)
+    (used : Bool) (body : List Expr) :
+    evalBlock (F b K V σ) used body =
+      F b (body.map (fun e => (St.N, e)) ++ K) (pushIf (used && body.isEmpty) vUnit V) ([] :: σ) :=
+  evalBlock_F b K V σ [] used body
+
+theorem d_if_N (p : Program) (b : Frame) (K : List (St × Expr)) (V : List Value) (σ : List Block) (id : Nat) (u : Bool)
+    (c : Expr) (t : List Expr) (els : Option (List Expr)) :
+    dispatch p (F b K V σ) .N (.ifE id u c t els) = .ok (F b ((.N, c) :: (.PW, .ifE id u c t els) :: K) V σ) := by
+  simp [dispatch, Frame.pushE, F]
+
+theorem if_PW (p : Program) (b : Frame) (K : List (St × Expr)) (V : List Value) (σ : List Block) (id : Nat) (u : Bool)
+    (c : Expr) (t : List Expr) (els : Option (List Expr)) (cv : Value) :
+    match cv.asBool with
+    | none => ∃ f' st' vals, dispatch p (F b K (cv :: V) σ) .PW (.ifE id u c t els) = .err f' st' vals (.typeError "Bool")
+    | some true => dispatch p (F b K (cv :: V) σ) .PW (.ifE id u c t els) =
+        .ok (F b (t.map (fun e => (St.N, e)) ++ (.E, .ifE id u c t els) :: K)
+          (pushIf ((u && els.isSome) && t.isEmpty) vUnit V) ([] :: σ))
+    | some false =>
+      match els with
+      | some eb => dispatch p (F b K (cv :: V) σ) .PW (.ifE id u c t els) =
+          .ok (F b (eb.map (fun e => (St.N, e)) ++ (.E, .ifE id u c t (some eb)) :: K)
+            (pushIf ((u && true) && eb.isEmpty) vUnit V) ([] :: σ))
+      | none => dispatch p (F b K (cv :: V) σ) .PW (.ifE id u c t els) =
+          .ok (F b ((.E, .ifE id u c t none) :: K) V ([] :: σ)) := by
+  have hE : ∀ V', ({ (F b K (cv :: V) σ).pushE .E (.ifE id u c t els) with values := V' } : Frame) =
+      F b ((.E, .ifE id u c t els) :: K) V' σ := fun _ => rfl
+  cases h : cv.asBool with
+  | none => simp [dispatch, Frame.pushE, F, h]
+  | some bv =>
+    cases bv
+    · cases els with
+      | none => simp [dispatch, Frame.pushE, F, h]
+      | some eb =>
+        simp only [dispatch, Expr.used]
+        have : ((F b K (cv :: V) σ).pushE .E (.ifE id u c t (some eb))).values = cv :: V := rfl
+        simp only [this, h, hE, evalBlock_F0]
+        simp
+    · simp only [dispatch, Expr.used]
+      have : ((F b K (cv :: V) σ).pushE .E (.ifE id u c t els)).values = cv :: V := rfl
+      simp only [this, h, hE, evalBlock_F0]
+      simp
+
+theorem popBlock_F (b : Frame) (K : List (St × Expr)) (V : List Value) (x y : Block) (B : List Block) :
+    popBlock (F b K V (x :: y :: B)) = some (F b K V (y :: B)) := rfl
+
+theorem if_E (p : Program) (b : Frame) (K : List (St × Expr)) (V : List Value) (x y : Block) (B : List Block)
+    (id : Nat) (u : Bool) (c : Expr) (t : List Expr) (els : Option (List Expr)) :
+    dispatch p (F b K V (x :: y :: B)) .E (.ifE id u c t els) =
+      .ok (F b K (pushIf (u && els.isNone) vUnit V) (y :: B)) := by
+  simp [dispatch, popBlock_F, F_pushVIf, Expr.used]
+
+theorem match_E (p : Program) (b : Frame) (K : List (St × Expr)) (V : List Value) (x y : Block) (B : List Block)
+    (id : Nat) (u : Bool) (sc : Expr) (cases : List Case) :
+    dispatch p (F b K V (x :: y :: B)) .E (.matchE id u sc cases) = .ok (F b K V (y :: B)) := by
+  simp [dispatch, popBlock_F]
+
+theorem two_of_len {α : Type} (l : List α) (n : Nat) (h : l.length = n + 1) (hn : 1 ≤ n) :
+    ∃ x y B, l = x :: y :: B ∧ (y :: B).length = n := by
+  match l, h with
+  | x :: y :: B, h => exact ⟨x, y, B, rfl, by simp at h ⊢; omega⟩
+  | [x], h => simp at h; omega
+
+/-- Leaving the block entered by an `if` / `match` whose `E` continuation is pending. -/
+theorem leave_block {p : Program} {bk ck : Bool} {A : List Frame} {b : Frame} {cs : List Frame}
+    {K : List (St × Expr)} {V : List Value} {n : Nat} {out : String} {used used' : Bool} {e : Expr}
+    (ho : isBlockOwner e = true) (hn : 1 ≤ n) {rs : Res}
+    (h : Concl p bk ck A b cs ((St.E, e) :: K) V (n + 1) out used rs) :
+    match rs.outcome with
+    | .val v => ∃ x y B, rs.scopes = x :: y :: B ∧ (y :: B).length = n ∧
+        MS p A out (F b ((St.E, e) :: K) (pushIf used v V) (x :: y :: B) :: cs) rs.out
+    | _ => Concl p bk ck A b cs K V n out used' ⟨rs.scopes.drop 1, rs.out, rs.outcome⟩ := by
+  unfold Concl at h
+  cases hr : rs.outcome <;> simp only [hr] at h ⊢
+  · obtain ⟨x, y, B, hs, hl⟩ := two_of_len _ _ h.1 hn
+    exact ⟨x, y, B, hs, hl, hs ▸ h.2⟩
+  · obtain ⟨x, y, B, hs, hl⟩ := two_of_len _ _ h.2.1 hn
+    simp only [Concl, hs, List.drop_succ_cons, List.drop_zero]
+    refine ⟨h.1, hl, fun G hG => h.2.2 G ?_⟩
+    rw [hs, d_brk_eq p b _ K V V _ _ (brk_skipOwner K V x y B e ho)]; exact hG
+  · obtain ⟨x, y, B, hs, hl⟩ := two_of_len _ _ h.2.1 hn
+    simp only [Concl, hs, List.drop_succ_cons, List.drop_zero]
+    refine ⟨h.1, hl, fun G hG => h.2.2 G ?_⟩
+    rw [hs, d_cont_eq p b _ K V V _ _ (cont_skipOwner K V x y B e ho)]; exact hG
+  · simpa [Concl] using h
+  · simpa [Concl] using h
+  · simp [Concl]
+  · simp [Concl]
+
+theorem d_match_N (p : Program) (b : Frame) (K : List (St × Expr)) (V : List Value) (σ : List Block) (id : Nat) (u : Bool)
+    (sc : Expr) (cases : List Case) :
+    dispatch p (F b K V σ) .N (.matchE id u sc cases) =
+      .ok (F b ((.N, sc) :: (.PW, .matchE id u sc cases) :: K) V σ) := by
+  simp [dispatch, Frame.pushE, F]
+
+theorem foldl_addNew_filter (kvs : List (String × Value)) (σ : List Block) :
+    (kvs.filter (fun kv => kv.1 != "_")).foldl (fun bs kv => addNew bs kv.1 kv.2) σ =
+      kvs.foldl (fun bs kv => addNew bs kv.1 kv.2) σ := by
+  induction kvs generalizing σ with
+  | nil => rfl
+  | cons kv rest ih =>
+    by_cases h : kv.1 = "_"
+    · have h1 : (kv.1 != "_") = false := by simp [h]
+      have h2 : addNew σ kv.1 kv.2 = σ := by simp [addNew, h]
+      simp only [List.filter_cons, h1, List.foldl_cons, h2, Bool.false_eq_true, if_false]; exact ih σ
+    · have h1 : (kv.1 != "_") = true := by simp [h]
+      simp only [List.filter_cons, h1, if_true, List.foldl_cons]; exact ih _
+
+/-- `bindPayload` (machine) against `destructure` (reference): same scopes after declaring. -/
+theorem bindPayload_spec (pl : Value) (d : Dest) (σ : List Block) :
+    match destructure d pl (.typeError "tuple-payload") with
+    | .ok binds => ∃ bs, bindPayload (some pl) (some d) = some (.ok bs) ∧
+        bs.foldl (fun s kv => addNew s kv.1 kv.2) σ = declareAll σ binds
+    | .error er => bindPayload (some pl) (some d) = some (.error er) := by
+  cases d with
+  | sym n =>
+    simp only [destructure, bindPayload, declareAll]
+    by_cases hn : n = "_"
+    · simp [hn, addNew]
+    · simp [hn]
+  | destr names =>
+    cases pl <;> simp only [destructure, bindPayload]
+    case tuple items =>
+      by_cases hl : items.length = names.length
+      · simp [hl, declareAll, foldl_addNew_filter]
+      · simp [hl]
+
+theorem getVar_F (p : Program) (b : Frame) (K : List (St × Expr)) (V : List Value) (σ : List Block) (bs : Block)
+    (name : String) : getVar p { F b K V σ with nextBlock := bs } name = lookupVar p σ name := by
+  simp only [getVar, lookupVar, F]; cases lookupBlocks σ name <;> rfl
+
+/-- `matchCases` (machine) takes the case `selectCase` (reference) takes. -/
+theorem matchCases_select (p : Program) (b : Frame) (K : List (St × Expr)) (V : List Value) (σ : List Block)
+    (used : Bool) (ty : String) (idx : Nat) (payload : Option Value) :
+    ∀ (cases : List Case),
+    match selectCase p σ ty idx payload cases with
+    | .take binds body => (∃ vn d, Case.mk vn d body ∈ cases) ∧
+        matchCases p (F b K V σ) used ty idx payload cases =
+          .ok (F b (body.map (fun e => (St.N, e)) ++ K) (pushIf (used && body.isEmpty) vUnit V)
+            (declareAll ([] :: σ) binds))
+    | .fail er => matchCases p (F b K V σ) used ty idx payload cases = .error er
+  | [] => by simp [selectCase, matchCases]
+  | .mk variant dest body :: rest => by
+      have ihr := matchCases_select p b K V σ used ty idx payload rest
+      have hrec : ∀ (P : CaseSel → Prop), (match selectCase p σ ty idx payload rest with
+          | .take binds body => (∃ vn d, Case.mk vn d body ∈ rest) ∧
+              matchCases p (F b K V σ) used ty idx payload rest =
+                .ok (F b (body.map (fun e => (St.N, e)) ++ K) (pushIf (used && body.isEmpty) vUnit V)
+                  (declareAll ([] :: σ) binds))
+          | .fail er => matchCases p (F b K V σ) used ty idx payload rest = .error er) →
+          (match selectCase p σ ty idx payload rest with
+          | .take binds body' => (∃ vn d, Case.mk vn d body' ∈ Case.mk variant dest body :: rest) ∧
+              matchCases p (F b K V σ) used ty idx payload rest =
+                .ok (F b (body'.map (fun e => (St.N, e)) ++ K) (pushIf (used && body'.isEmpty) vUnit V)
+                  (declareAll ([] :: σ) binds))
+          | .fail er => matchCases p (F b K V σ) used ty idx payload rest = .error er) := by
+        intro _ h
+        cases hs : selectCase p σ ty idx payload rest <;> simp only [hs] at h ⊢
+        · obtain ⟨⟨vn, d, hm⟩, h2⟩ := h
+          exact ⟨⟨vn, d, List.mem_cons_of_mem _ hm⟩, h2⟩
+        · exact h
+      have ihr' := hrec (fun _ => True) ihr
+      have hg := getVar_F p b K V σ [] variant
+      have hF : ({ F b K V σ with nextBlock := [] } : Frame) = F b K V σ := rfl
+      rw [hF] at hg
+      unfold selectCase matchCases
+      by_cases hv : (variant == "_") = true
+      · simp only [hv, if_true]
+        exact ⟨⟨variant, dest, List.mem_cons_self⟩, by rw [evalBlock_F0]; rfl⟩
+      · simp only [hv, if_false, Bool.false_eq_true, hg]
+        cases hl : lookupVar p σ variant with
+        | none => simp
+        | some pv =>
+          cases pv <;> simp only [patKey]
+          case enumV pty pidx ppl =>
+            by_cases hm : (ty == pty && idx == pidx) = true
+            · simp only [hm, if_true]
+              cases payload with
+              | none =>
+                cases dest with
+                | none =>
+                  simp only [bindPayload]
+                  exact ⟨⟨variant, none, List.mem_cons_self⟩, by rw [evalBlock_F]⟩
+                | some d => simp only [bindPayload]; exact ihr'
+              | some pl =>
+                cases dest with
+                | none => simp only [bindPayload]; exact ihr'
+                | some d =>
+                  have hb := bindPayload_spec pl d ([] :: σ)
+                  cases hd : destructure d pl (.typeError "tuple-payload") with
+                  | ok binds =>
+                    simp only [hd] at hb ⊢
+                    obtain ⟨bs, hb1, hb2⟩ := hb
+                    simp only [hb1]
+                    refine ⟨⟨variant, some d, List.mem_cons_self⟩, ?_⟩
+                    rw [evalBlock_F]
+                    simp only [declareAll] at hb2 ⊢
+                    rw [hb2]
+                  | error er =>
+                    simp only [hd] at hb ⊢
+                    simp only [hb]
+            · simp only [hm, if_false, Bool.false_eq_true]; exact ihr'
+          case enumC pty pidx =>
+            by_cases hm : (ty == pty && idx == pidx) = true
+            · simp only [hm, if_true]
+              cases payload with
+              | none =>
+                cases dest with
+                | none =>
+                  simp only [bindPayload]
+                  exact ⟨⟨variant, none, List.mem_cons_self⟩, by rw [evalBlock_F]⟩
+                | some d => simp only [bindPayload]; exact ihr'
+              | some pl =>
+                cases dest with
+                | none => simp only [bindPayload]; exact ihr'
+                | some d =>
+                  have hb := bindPayload_spec pl d ([] :: σ)
+                  cases hd : destructure d pl (.typeError "tuple-payload") with
+                  | ok binds =>
+                    simp only [hd] at hb ⊢
+                    obtain ⟨bs, hb1, hb2⟩ := hb
+                    simp only [hb1]
+                    refine ⟨⟨variant, some d, List.mem_cons_self⟩, ?_⟩
+                    rw [evalBlock_F]
+                    simp only [declareAll] at hb2 ⊢
+                    rw [hb2]
+                  | error er =>
+                    simp only [hd] at hb ⊢
+                    simp only [hb]
+            · simp only [hm, if_false, Bool.false_eq_true]; exact ihr'
+
+-- ------------------------------------------------------------------ calls
+
+theorem d_call_N (p : Program) (b : Frame) (K : List (St × Expr)) (V : List Value) (σ : List Block) (id : Nat) (u : Bool)
+    (recv : Expr) (args : List Expr) :
+    dispatch p (F b K V σ) .N (.call id u recv args) =
+      .ok (F b ((.N, recv) :: (.PN, .call id u recv args) :: K) V σ) := by
+  simp [dispatch, Frame.pushE, F]
+
+theorem call_PN (p : Program) (b : Frame) (K : List (St × Expr)) (V : List Value) (σ : List Block) (id : Nat) (u : Bool)
+    (recv : Expr) (args : List Expr) :
+    dispatch p (F b K V σ) .PN (.call id u recv args) =
+      .ok (F b (args.reverse.map (fun e => (St.N, e)) ++ (.E, .call id u recv args) :: K) V σ) := by
+  have : (F b K V σ).pushE .E (.call id u recv args) = F b ((.E, .call id u recv args) :: K) V σ := rfl
+  simp [dispatch, this, foldl_pushE]
+
+/-- What applying a function value must do on the machine side: the `E` step of the call node
+(receiver and arguments on the value stack, first argument on top). -/
+def ApHolds (p : Program) (ap : Ap) (ev : Ev) : Prop :=
+  ∀ (σ : List Block) (out : String) (fv : Value) (vs : List Value) (id : Nat) (u : Bool) (recv : Expr)
+    (args : List Expr) (b : Frame) (cs : List Frame) (K : List (St × Expr)) (V : List Value),
+    σ ≠ [] → vs.length = args.length →
+    Concl p false false (F b ((St.E, .call id u recv args) :: K) (vs ++ fv :: V) σ :: cs) b cs K V σ.length out u
+      (ap ev σ out fv vs)
+
+theorem call_E_eq (p : Program) (b : Frame) (K : List (St × Expr)) (V : List Value) (σ : List Block) (id : Nat) (u : Bool)
+    (recv : Expr) (args : List Expr) (fv : Value) (vs : List Value) (hl : vs.length = args.length) :
+    dispatch p (F b K (vs ++ fv :: V) σ) .E (.call id u recv args) =
+      evalCall p (F b K (vs ++ fv :: V) σ) id u vs.length := by
+  simp [dispatch, Expr.id, Expr.used, hl]
+
+theorem Concl_val1 {p : Program} {bk ck : Bool} {b : Frame} {cs : List Frame} {st : St} {e : Expr}
+    {K : List (St × Expr)} {V V0 : List Value} {σ : List Block} {out : String} {used : Bool} {v : Value}
+    (hd : dispatch p (F b K V0 σ) st e = .ok (F b K (pushIf used v V) σ)) :
+    Concl p bk ck (F b ((st, e) :: K) V0 σ :: cs) b cs K V σ.length out used ⟨σ, out, .val v⟩ := by
+  simp only [Concl]; exact ⟨trivial, MS.one hd⟩
+
+theorem Concl_err1 {p : Program} {bk ck : Bool} {b : Frame} {cs : List Frame} {st : St} {e : Expr}
+    {K : List (St × Expr)} {V V0 : List Value} {σ : List Block} {n : Nat} {out : String} {used : Bool} {er : Err}
+    (hd : ∃ f' st' vals, dispatch p (F b K V0 σ) st e = .err f' st' vals er) :
+    Concl p bk ck (F b ((st, e) :: K) V0 σ :: cs) b cs K V n out used ⟨σ, out, .err er⟩ := by
+  simp only [Concl]; exact ⟨_, MS.refl _ _, MErr.mk1 hd⟩
+
+theorem F_values (b : Frame) (K : List (St × Expr)) (V : List Value) (σ : List Block) : (F b K V σ).values = V := rfl
+theorem F_exprs (b : Frame) (K : List (St × Expr)) (V : List Value) (σ : List Block) : (F b K V σ).exprs = K := rfl
+theorem F_blocks (b : Frame) (K : List (St × Expr)) (V : List Value) (σ : List Block) : (F b K V σ).blocks = σ := rfl
+
+/-- A built-in applied to one argument, as an if-chain (reference side). -/
+theorem apply_builtin1 (ev : Ev) (p : Program) (σ : List Block) (out : String) (name : String) (a : Value) :
+    BigStep.apply ev p σ out (.builtin name) [a] =
+      if name = "println" then
+        (match a with | .str t => ⟨σ, out ++ (t ++ "\n"), .val vUnit⟩ | _ => ⟨σ, out, .err (.typeError "String")⟩)
+      else if name = "print" then
+        (match a with | .str t => ⟨σ, out ++ t, .val vUnit⟩ | _ => ⟨σ, out, .err (.typeError "String")⟩)
+      else if name = "string_repr" then ⟨σ, out, .val (.str (display p a))⟩
+      else ⟨σ, out, .unsupported ("builtin " ++ name)⟩ := by
+  by_cases h1 : name = "println"
+  · subst h1; cases a <;> simp [BigStep.apply]
+  · by_cases h2 : name = "print"
+    · subst h2; cases a <;> simp [BigStep.apply]
+    · by_cases h3 : name = "string_repr"
+      · subst h3; simp [BigStep.apply]
+      · simp only [BigStep.apply, h1, h2, h3, if_false]
+        simp only [List.length_singleton, bne_self_eq_false, Bool.false_eq_true, if_false]
+        split <;> simp_all
+
+/-- The same on the machine side. -/
+theorem evalCall_builtin1 (p : Program) (b : Frame) (K : List (St × Expr)) (V : List Value) (σ : List Block)
+    (id : Nat) (u : Bool) (name : String) (a : Value) :
+    evalCall p (F b K (a :: .builtin name :: V) σ) id u 1 =
+      if name = "println" then
+        (match a with
+          | .str t => .okOut (F b K (pushIf u vUnit V) σ) (t ++ "\n")
+          | _ => .err (F b K V σ) .E [a, .builtin name] (.typeError "String"))
+      else if name = "print" then
+        (match a with
+          | .str t => .okOut (F b K (pushIf u vUnit V) σ) t
+          | _ => .err (F b K V σ) .E [a, .builtin name] (.typeError "String"))
+      else if name = "string_repr" then .ok (F b K (pushIf u (.str (display p a)) V) σ)
+      else .unsupported ("builtin " ++ name) := by
+  have hF : ∀ V', ({ F b K (a :: .builtin name :: V) σ with values := V' } : Frame) = F b K V' σ := fun _ => rfl
+  by_cases h1 : name = "println"
+  · subst h1; cases a <;> simp [evalCall, popN, hF, F_pushVIf, F_values]
+  · by_cases h2 : name = "print"
+    · subst h2; cases a <;> simp [evalCall, popN, hF, F_pushVIf, F_values]
+    · by_cases h3 : name = "string_repr"
+      · subst h3; simp [evalCall, popN, hF, F_pushVIf, F_values]
+      · simp only [evalCall, popN, hF, h1, h2, h3, if_false, Option.map, F_values]
+        simp only [List.length_singleton, bne_self_eq_false, Bool.false_eq_true, if_false]
+        split <;> simp_all
+
+theorem apHolds_builtin (p : Program) (ev : Ev) : ApHolds p (applyBuiltin p) ev := by
+  intro σ out fv vs id u recv args b cs K V hσ hl
+  have hE := call_E_eq p b K V σ id u recv args fv vs hl
+  have hp : popN vs.length (vs ++ fv :: V) = some (vs, fv :: V) := popN_append vs (fv :: V)
+  have hFv : ∀ V', ({ F b K (vs ++ fv :: V) σ with values := V' } : Frame) = F b K V' σ := fun _ => rfl
+  cases fv
+  case closure => simp [applyBuiltin, Concl]
+  case fn => simp [applyBuiltin, Concl]
+  case builtin name =>
+    simp only [applyBuiltin]
+    by_cases h1 : vs.length = 1
+    · cases vs with
+      | nil => simp at h1
+      | cons a rest =>
+        cases rest with
+        | cons a2 r2 => simp at h1
+        | nil =>
+          simp only [List.length_singleton, List.singleton_append] at hE
+          rw [evalCall_builtin1] at hE
+          rw [apply_builtin1]
+          by_cases n1 : name = "println"
+          · simp only [n1, if_true] at hE ⊢
+            cases a <;> simp only [] at hE ⊢
+            case str t =>
+              simp only [Concl]
+              exact ⟨trivial, MS.okOut (f := F b ((St.E, .call id u recv args) :: K) _ σ) rfl hE (MS.refl _ _)⟩
+            all_goals exact Concl_err1 ⟨_, _, _, hE⟩
+          · by_cases n2 : name = "print"
+            · subst n2
+              simp (config := { decide := true }) only [if_true, if_false, ite_true, ite_false] at hE ⊢
+              cases a <;> simp only [] at hE ⊢
+              case str t =>
+                simp only [Concl]
+                exact ⟨trivial, MS.okOut (f := F b ((St.E, .call id u recv args) :: K) _ σ) rfl hE (MS.refl _ _)⟩
+              all_goals exact Concl_err1 ⟨_, _, _, hE⟩
+            · by_cases n3 : name = "string_repr"
+              · subst n3
+                simp (config := { decide := true }) only [if_true, if_false, ite_true, ite_false] at hE ⊢
+                exact Concl_val1 hE
+              · simp only [n1, n2, n3, if_false]
+                simp [Concl]
+    · have hne : (vs.length != 1) = true := by simp [h1]
+      simp only [BigStep.apply, hne, if_true]
+      refine Concl_err1 ?_
+      rw [hE]
+      simp only [evalCall, hp, hFv, hne, if_true, F_values]
+      exact ⟨_, _, _, rfl⟩
+  case enumC ty idx =>
+    simp only [applyBuiltin, BigStep.apply]
+    cases vs with
+    | nil =>
+      simp only []
+      refine Concl_err1 ?_
+      rw [hE]; simp only [evalCall, hp, hFv, F_values]
+      exact ⟨_, _, _, rfl⟩
+    | cons a rest =>
+      cases rest with
+      | nil =>
+        simp only []
+        refine Concl_val1 ?_
+        rw [hE]; simp only [evalCall, hp, hFv, F_values, F_pushVIf]; rfl
+      | cons a2 r2 =>
+        simp only []
+        refine Concl_err1 ?_
+        rw [hE]
+        simp only [evalCall, hp, hFv, F_values]
+        exact ⟨_, _, _, rfl⟩
+  all_goals (
+    simp only [applyBuiltin, BigStep.apply]
+    refine Concl_err1 ?_
+    rw [hE]
+    simp only [evalCall, hp, hFv, F_values]
+    exact ⟨_, _, _, rfl⟩)
+
+
+-- ==================================================================== (BS3.lean)
+
+/-- An operand conclusion (no exits allowed) is a conclusion for any exit flags. -/
+theorem Concl.weaken {p : Program} {bk ck : Bool} {A : List Frame} {b : Frame} {cs : List Frame}
+    {K : List (St × Expr)} {V : List Value} {n : Nat} {out : String} {used : Bool} {r : Res}
+    (h : Concl p false false A b cs K V n out used r) : Concl p bk ck A b cs K V n out used r := by
+  unfold Concl at h ⊢
+  cases hr : r.outcome <;> simp only [hr] at h ⊢
+  · exact h
+  · exact absurd h.1 (by simp)
+  · exact absurd h.1 (by simp)
+  · exact h
+  · exact h
+
+theorem binop_shape (op : BinOp) (lv rv : Value) :
+    (∃ v, BigStep.binop op lv rv = .val v) ∨ (∃ e, BigStep.binop op lv rv = .err e) ∨
+    (∃ w, BigStep.binop op lv rv = .unsupported w) := by
+  cases op <;> simp only [BigStep.binop] <;> (repeat' split) <;> simp
+
+theorem pushIf_block (u : Bool) (body : List Expr) (ev : Ev) (σ : List Block) (out : String) (v : Value)
+    (V : List Value) (s2 : List Block) (o2 : String)
+    (h : evalSeq ev vUnit body σ out = ⟨s2, o2, .val v⟩) :
+    pushIf (u && !body.isEmpty) v (pushIf (u && body.isEmpty) vUnit V) = pushIf u v V := by
+  cases body with
+  | nil => simp [evalSeq] at h; simp [pushIf, h.2.2]
+  | cons x xs => simp [pushIf]
+
+theorem lv_list (id : Nat) (u : Bool) (items : List Expr) (L : Nat) (h : lvE (.list id u items) ≤ L) : lvB items ≤ L := by
+  simp only [lvE] at h; omega
+
+/-- The body of the taken branch of an `if` (block entered, `(E, if)` pending below it). -/
+theorem sim_if_branch {p : Program} {L : Nat} {ev : Ev} (ih : IH p L ev) (bk ck : Bool)
+    (id : Nat) (u : Bool) (c : Expr) (t : List Expr) (els : Option (List Expr)) (body : List Expr)
+    (s1 : List Block) (o1 : String) (hs1 : s1 ≠ []) (hl : lvB body ≤ L)
+    (hw : wfB (u && els.isSome) body = true) (hx : exB bk ck body = true)
+    (b : Frame) (cs : List Frame) (K : List (St × Expr)) (V : List Value) :
+    Concl p bk ck
+      (F b (body.map (fun e => (St.N, e)) ++ (.E, .ifE id u c t els) :: K)
+        (pushIf ((u && els.isSome) && body.isEmpty) vUnit V) ([] :: s1) :: cs)
+      b cs K V s1.length o1 u
+      (match (generalizing := false) (runBlock ev [] body s1 o1).outcome, els with
+        | .val _, none => ⟨(runBlock ev [] body s1 o1).scopes, (runBlock ev [] body s1 o1).out, .val vUnit⟩
+        | _, _ => runBlock ev [] body s1 o1) := by
+  have hseq := sim_seq ih (u && els.isSome) bk ck body vUnit ([] :: s1) o1 (by simp) hl hw hx b cs
+    ((.E, .ifE id u c t els) :: K) (pushIf ((u && els.isSome) && body.isEmpty) vUnit V)
+  have hn : 1 ≤ s1.length := by cases s1 <;> simp_all
+  have hlen : ([] :: s1).length = s1.length + 1 := by simp
+  rw [hlen] at hseq
+  have hlb := leave_block (used' := u) (e := .ifE id u c t els) rfl hn hseq
+  simp only [runBlock, declareAll, List.foldl]
+  generalize hrs : evalSeq ev vUnit body ([] :: s1) o1 = rs at hlb ⊢
+  obtain ⟨s2, o2, oc2⟩ := rs
+  cases oc2
+  case val v =>
+    simp only [] at hlb
+    obtain ⟨x, y, B, hs, hlen2, hms⟩ := hlb
+    subst hs
+    have hpv := pushIf_block (u && els.isSome) body ev ([] :: s1) o1 v V _ _ hrs
+    rw [hpv] at hms
+    have hE := if_E p b K (pushIf (u && els.isSome) v V) x y B id u c t els
+    cases els with
     | none =>
-      simp only
-      cases hn : nsLookup p name with
-      | some v =>
-        simp only
-        exact ⟨by simp, MS.step1 (by simp [dispatch, getVar, F, hl, hn, Frame.pushVIf, Frame.pushV, pushIf, Expr.used]; cases u <;> rfl) (MS.refl _ _)⟩
-      | none =>
-        simp only
-        exact ⟨_, MS.refl _ _, ⟨.N, _, K, _, _, _, rfl, by simp [dispatch, getVar, F, hl, hn]; exact ⟨rfl, rfl, rfl⟩⟩⟩
+      simp only [Concl, List.drop_succ_cons, List.drop_zero]
+      refine ⟨hlen2, hms.trans ?_⟩
+      simp only [Option.isSome_none, Bool.and_false, pushIf, Bool.false_eq_true, if_false, Option.isNone_none,
+        Bool.and_true] at hE ⊢
+      exact MS.one hE
+    | some eb =>
+      simp only [Concl, List.drop_succ_cons, List.drop_zero]
+      refine ⟨hlen2, hms.trans ?_⟩
+      simp only [Option.isSome_some, Bool.and_true, Option.isNone_some, Bool.and_false, pushIf,
+        Bool.false_eq_true, if_false] at hE ⊢
+      exact MS.one hE
+  all_goals (
+    simp only [] at hlb ⊢
+    cases body with
+    | nil => simp [evalSeq] at hrs
+    | cons x xs =>
+      simp only [List.isEmpty_cons, Bool.and_false, pushIf, Bool.false_eq_true, if_false] at hlb ⊢
+      cases els <;> exact hlb)
+
+theorem match_PW (p : Program) (b : Frame) (K : List (St × Expr)) (V : List Value) (σ : List Block) (id : Nat) (u : Bool)
+    (sc : Expr) (cases : List Case) (sv : Value) :
+    match sv with
+    | .enumV ty idx payload =>
+      match selectCase p σ ty idx payload cases with
+      | .take binds body => (∃ vn d, Case.mk vn d body ∈ cases) ∧
+          dispatch p (F b K (sv :: V) σ) .PW (.matchE id u sc cases) =
+            .ok (F b (body.map (fun e => (St.N, e)) ++ (.E, .matchE id u sc cases) :: K)
+              (pushIf (u && body.isEmpty) vUnit V) (declareAll ([] :: σ) binds))
+      | .fail er => ∃ f' st' vals,
+          dispatch p (F b K (sv :: V) σ) .PW (.matchE id u sc cases) = .err f' st' vals er
+    | _ => ∃ f' st' vals, dispatch p (F b K (sv :: V) σ) .PW (.matchE id u sc cases) = .err f' st' vals .notEnum := by
+  have hE : ∀ V', ({ (F b K (sv :: V) σ).pushE .E (.matchE id u sc cases) with values := V' } : Frame) =
+      F b ((.E, .matchE id u sc cases) :: K) V' σ := fun _ => rfl
+  have hv : ((F b K (sv :: V) σ).pushE .E (.matchE id u sc cases)).values = sv :: V := rfl
+  cases sv <;> simp only [] <;> (try (simp only [dispatch, hv, hE]; exact ⟨_, _, _, rfl⟩))
+  case enumV ty idx payload =>
+    have hm := matchCases_select p b ((.E, .matchE id u sc cases) :: K) V σ u ty idx payload cases
+    cases hs : selectCase p σ ty idx payload cases <;> simp only [hs] at hm ⊢
+    · refine ⟨hm.1, ?_⟩
+      simp only [dispatch, hv, hE, Expr.used, hm.2]
+    · simp only [dispatch, hv, hE, Expr.used, hm]
+      exact ⟨_, _, _, rfl⟩
+
+theorem wfCases_mem (u : Bool) : ∀ (cases : List Case) (vn : String) (d : Option Dest) (body : List Expr),
+    wfCases u cases = true → Case.mk vn d body ∈ cases → wfB u body = true
+  | [], _, _, _, _, hm => by simp at hm
+  | .mk vn' d' body' :: rest, vn, d, body, hw, hm => by
+      simp only [wfCases, Bool.and_eq_true] at hw
+      rcases List.mem_cons.mp hm with h | h
+      · cases h; exact hw.1
+      · exact wfCases_mem u rest vn d body hw.2 h
+
+theorem exCases_mem (bk ck : Bool) : ∀ (cases : List Case) (vn : String) (d : Option Dest) (body : List Expr),
+    exCases bk ck cases = true → Case.mk vn d body ∈ cases → exB bk ck body = true
+  | [], _, _, _, _, hm => by simp at hm
+  | .mk vn' d' body' :: rest, vn, d, body, hw, hm => by
+      simp only [exCases, Bool.and_eq_true] at hw
+      rcases List.mem_cons.mp hm with h | h
+      · cases h; exact hw.1
+      · exact exCases_mem bk ck rest vn d body hw.2 h
+
+theorem lvCases_mem (L : Nat) : ∀ (cases : List Case) (vn : String) (d : Option Dest) (body : List Expr),
+    lvCases cases ≤ L → Case.mk vn d body ∈ cases → lvB body ≤ L
+  | [], _, _, _, _, hm => by simp at hm
+  | .mk vn' d' body' :: rest, vn, d, body, hw, hm => by
+      simp only [lvCases] at hw
+      rcases List.mem_cons.mp hm with h | h
+      · cases h; omega
+      · exact lvCases_mem L rest vn d body (by omega) h
+
+/-- The body of the taken case of a `match` (block entered, `(E, match)` pending below it). -/
+theorem sim_match_body {p : Program} {L : Nat} {ev : Ev} (ih : IH p L ev) (bk ck : Bool)
+    (id : Nat) (u : Bool) (sc : Expr) (cases : List Case) (binds : List (String × Value)) (body : List Expr)
+    (s1 : List Block) (o1 : String) (hs1 : s1 ≠ []) (hl : lvB body ≤ L)
+    (hw : wfB u body = true) (hx : exB bk ck body = true)
+    (b : Frame) (cs : List Frame) (K : List (St × Expr)) (V : List Value) :
+    Concl p bk ck
+      (F b (body.map (fun e => (St.N, e)) ++ (.E, .matchE id u sc cases) :: K)
+        (pushIf (u && body.isEmpty) vUnit V) (declareAll ([] :: s1) binds) :: cs)
+      b cs K V s1.length o1 u (runBlock ev binds body s1 o1) := by
+  have hdl : (declareAll ([] :: s1) binds).length = s1.length + 1 := by simp [declareAll_length]
+  have hne : declareAll ([] :: s1) binds ≠ [] := by
+    intro h; rw [h] at hdl; simp at hdl
+  have hseq := sim_seq ih u bk ck body vUnit (declareAll ([] :: s1) binds) o1 hne hl hw hx b cs
+    ((.E, .matchE id u sc cases) :: K) (pushIf (u && body.isEmpty) vUnit V)
+  have hn : 1 ≤ s1.length := by cases s1 <;> simp_all
+  rw [hdl] at hseq
+  have hlb := leave_block (used' := u) (e := .matchE id u sc cases) rfl hn hseq
+  simp only [runBlock]
+  generalize hrs : evalSeq ev vUnit body (declareAll ([] :: s1) binds) o1 = rs at hlb ⊢
+  obtain ⟨s2, o2, oc2⟩ := rs
+  cases oc2
+  case val v =>
+    simp only [] at hlb
+    obtain ⟨x, y, B, hs, hlen2, hms⟩ := hlb
+    subst hs
+    have hpv := pushIf_block u body ev _ o1 v V _ _ hrs
+    rw [hpv] at hms
+    simp only [Concl, List.drop_succ_cons, List.drop_zero]
+    exact ⟨hlen2, hms.trans (MS.one (match_E p b K (pushIf u v V) x y B id u sc cases))⟩
+  all_goals (
+    simp only [] at hlb ⊢
+    cases body with
+    | nil => simp [evalSeq] at hrs
+    | cons x xs =>
+      simp only [List.isEmpty_cons, Bool.and_false, pushIf, Bool.false_eq_true, if_false] at hlb ⊢
+      exact hlb)
+
+
+-- ==================================================================== (BS4.lean)
+
+theorem max_le3 {a b c L : Nat} (h : max a (max b c) ≤ L) : a ≤ L ∧ b ≤ L ∧ c ≤ L := by omega
+
+/-- One more unit of fuel, stage (a) node kinds. -/
+theorem sim_succ_a {ap : Ap} {p : Program} {L n : Nat}
+    (hap : ApHolds p ap (evalWith ap p n)) (ih : IH p L (evalWith ap p n))
+    (bk ck : Bool) (e : Expr) (σ : List Block) (out : String) (hσ : σ ≠ []) (hl : lvE e ≤ L)
+    (hw : wfE e = true) (hx : exE bk ck e = true)
+    (hk : e.isLoop = false ∧ (∀ id u, e ≠ .brk id u) ∧ (∀ id u, e ≠ .cont id u) ∧ (∀ id u x, e ≠ .ret id u x) ∧
+      (∀ id u ps b, e ≠ .lambda id u ps b)) :
+    Holds p bk ck e σ out (evalWith ap p (n + 1) σ out e) := by
+  intro b cs K V
+  cases e
+  case int id u v => simp only [evalWith]; exact Concl_val1 (d_int p b K V σ id u v)
+  case str id u t => simp only [evalWith]; exact Concl_val1 (d_str p b K V σ id u t)
+  case var id u name =>
+    simp only [evalWith]
+    have hd := d_var p b K V σ id u name
+    cases hlk : lookupVar p σ name <;> simp only [hlk] at hd ⊢
+    · exact Concl_err1 hd
+    · exact Concl_val1 hd
+  case invalid id u =>
+    simp only [evalWith]
+    exact Concl_err1 ⟨F b K V σ, .N, [], by simp only [dispatch]⟩
+  case unsup id u w => simp [evalWith, Concl]
   case paren id u inner =>
     simp only [wfE, Bool.and_eq_true, beq_iff_eq] at hw
-    obtain ⟨hu, hw2⟩ := hw
-    subst hu
-    intro b K V
+    simp only [exE] at hx
+    simp only [lvE] at hl
     simp only [evalWith]
-    have h := ih inner σ out hc hw2 b K V
-    have hd : dispatch p (F b K V σ) .N (.paren id inner.used inner) = .ok (F b ((.N, inner) :: K) V σ) := by
-      simp [dispatch, Frame.pushE, F]
-    revert h
-    cases (evalWith ap p n σ out inner).outcome <;> dsimp only <;> intro h
-    all_goals first
-      | exact ⟨h.1, MS.step1 hd h.2⟩
-      | exact h
-      | (obtain ⟨g, h1, h2⟩ := h; exact ⟨g, MS.step1 hd h1, h2⟩)
+    have h := ih false false inner σ out hσ hl hw.2 hx b cs K V
+    rw [hw.1] at h
+    exact (h.prepend (MS.one (d_paren p b K V σ id u inner))).weaken
+  case binop id u op l r =>
+    simp only [wfE, Bool.and_eq_true] at hw
+    simp only [exE, Bool.and_eq_true] at hx
+    simp only [lvE] at hl
+    have hl3 := max_le3 hl
+    simp only [evalWith]
+    have h1 := (ih false false l σ out hσ hl3.2.1 hw.1.2 hx.1 b cs
+      ((.N, r) :: (.E, .binop id u op l r) :: K) V).prepend (MS.one (d_binop_N p b K V σ id u op l r))
+    generalize evalWith ap p n σ out l = rl at h1 ⊢
+    obtain ⟨s1, o1, oc1⟩ := rl
+    cases oc1
+    case val lv =>
+      simp only []
+      simp only [Concl, hw.1.1.1, pushIf, if_true] at h1
+      have h2 := (ih false false r s1 o1 (ne_nil_of_len h1.1 hσ) hl3.2.2 hw.2 hx.2 b cs
+        ((.E, .binop id u op l r) :: K) (lv :: V)).prepend h1.2
+      generalize evalWith ap p n s1 o1 r = rr at h2 ⊢
+      obtain ⟨s2, o2, oc2⟩ := rr
+      cases oc2
+      case val rv =>
+        simp only []
+        simp only [Concl, hw.1.1.2, pushIf, if_true] at h2
+        have hE := binop_E p b K V s2 id u op l r lv rv
+        rcases binop_shape op lv rv with ⟨v, hb⟩ | ⟨er, hb⟩ | ⟨w, hb⟩ <;> simp only [hb] at hE ⊢ <;> simp only [Concl]
+        · exact ⟨by omega, h2.2.trans (MS.one hE)⟩
+        · exact ⟨_, h2.2, MErr.mk1 hE⟩
+      all_goals (simp only []; exact h2.operand_nonval (by intro v; simp))
+    all_goals (simp only []; exact h1.operand_nonval (by intro v; simp))
+  case letE id u dest inner =>
+    simp only [wfE, Bool.and_eq_true] at hw
+    simp only [exE] at hx
+    simp only [lvE] at hl
+    simp only [evalWith]
+    have h1 := (ih false false inner σ out hσ hl hw.2 hx b cs ((.E, .letE id u dest inner) :: K) V).prepend
+      (MS.one (d_unary_N p b K V σ _ inner (Or.inl ⟨id, u, dest, rfl⟩)))
+    generalize evalWith ap p n σ out inner = r1 at h1 ⊢
+    obtain ⟨s1, o1, oc1⟩ := r1
+    cases oc1
+    case val v =>
+      simp only []
+      simp only [Concl, hw.1, pushIf, if_true] at h1
+      have hE := let_E p b K V s1 id u dest inner v
+      cases hd : destructure dest v (.typeError "Tuple") <;> simp only [hd] at hE ⊢ <;> simp only [Concl]
+      · exact ⟨_, h1.2, MErr.mk1 hE⟩
+      · exact ⟨by rw [declareAll_length]; exact h1.1, h1.2.trans (MS.one hE)⟩
+    all_goals (simp only []; exact h1.operand_nonval (by intro v; simp))
+  case assign id u name inner =>
+    simp only [wfE, Bool.and_eq_true] at hw
+    simp only [exE] at hx
+    simp only [lvE] at hl
+    simp only [evalWith]
+    have h1 := (ih false false inner σ out hσ hl hw.2 hx b cs ((.E, .assign id u name inner) :: K) V).prepend
+      (MS.one (d_unary_N p b K V σ _ inner (Or.inr (Or.inl ⟨id, u, name, rfl⟩))))
+    generalize evalWith ap p n σ out inner = r1 at h1 ⊢
+    obtain ⟨s1, o1, oc1⟩ := r1
+    cases oc1
+    case val v =>
+      simp only []
+      simp only [Concl, hw.1, pushIf, if_true] at h1
+      have hE := assign_E p b K V s1 id u name inner v
+      cases hd : setExisting s1 name v <;> simp only [hd] at hE ⊢ <;> simp only [Concl]
+      · exact ⟨_, h1.2, MErr.mk1 hE⟩
+      · exact ⟨by rw [setExisting_length _ _ _ _ hd]; exact h1.1, h1.2.trans (MS.one hE)⟩
+    all_goals (simp only []; exact h1.operand_nonval (by intro v; simp))
+  case update id u isAdd name inner =>
+    simp only [wfE, Bool.and_eq_true] at hw
+    simp only [exE] at hx
+    simp only [lvE] at hl
+    simp only [evalWith]
+    have h1 := (ih false false inner σ out hσ hl hw.2 hx b cs ((.E, .update id u isAdd name inner) :: K) V).prepend
+      (MS.one (d_unary_N p b K V σ _ inner (Or.inr (Or.inr ⟨id, u, isAdd, name, rfl⟩))))
+    generalize evalWith ap p n σ out inner = r1 at h1 ⊢
+    obtain ⟨s1, o1, oc1⟩ := r1
+    cases oc1
+    case val dv =>
+      simp only []
+      simp only [Concl, hw.1, pushIf, if_true] at h1
+      have hE := update_E p b K V s1 id u isAdd name inner dv
+      cases hlk : lookupVar p s1 name with
+      | none => simp only [hlk] at hE ⊢; simp only [Concl]; exact ⟨_, h1.2, MErr.mk1 hE⟩
+      | some cv =>
+        cases cv <;> simp only [hlk] at hE ⊢ <;> (try (simp only [Concl]; exact ⟨_, h1.2, MErr.mk1 hE⟩))
+        case int cur =>
+          cases dv <;> simp only [] at hE ⊢ <;> (try (simp only [Concl]; exact ⟨_, h1.2, MErr.mk1 hE⟩))
+          case int d =>
+            cases hse : setExisting s1 name (.int (if isAdd then cur + d else cur - d)) with
+            | none => simp only [hse] at hE
+            | some σ' =>
+              simp only [hse] at hE ⊢
+              simp only [Concl]
+              exact ⟨by rw [setExisting_length _ _ _ _ hse]; exact h1.1, h1.2.trans (MS.one hE)⟩
+    all_goals (simp only []; exact h1.operand_nonval (by intro v; simp))
+  case list id u items =>
+    simp only [wfE] at hw
+    simp only [exE] at hx
+    have hl' := lv_list id u items L hl
+    simp only [evalWith]
+    have h1 := sim_rtl ih items σ out hσ hl' hw hx b cs ((.E, .list id u items) :: K) V
+    have h0 : MS p (F b ((.N, .list id u items) :: K) V σ :: cs) out _ out := MS.one (d_list_N p b K V σ id u items)
+    generalize evalRtl (evalWith ap p n) items σ out = r1 at h1 ⊢
+    obtain ⟨s1, o1, res⟩ := r1
+    cases res with
+    | ok vs =>
+      simp only [ConclL] at h1
+      simp only [Concl]
+      exact ⟨h1.2.1, h0.trans (h1.2.2.trans (MS.one (list_E p b K V s1 id u items vs h1.1)))⟩
+    | error o =>
+      simp only [ConclL] at h1
+      simp only []
+      exact (h1.2.prepend h0).operand_nonval h1.1
+  case tuple id u items =>
+    simp only [wfE] at hw
+    simp only [exE] at hx
+    simp only [lvE] at hl
+    simp only [evalWith]
+    have h1 := sim_rtl ih items σ out hσ hl hw hx b cs ((.E, .tuple id u items) :: K) V
+    have h0 : MS p (F b ((.N, .tuple id u items) :: K) V σ :: cs) out _ out := MS.one (d_tuple_N p b K V σ id u items)
+    generalize evalRtl (evalWith ap p n) items σ out = r1 at h1 ⊢
+    obtain ⟨s1, o1, res⟩ := r1
+    cases res with
+    | ok vs =>
+      simp only [ConclL] at h1
+      simp only [Concl]
+      exact ⟨h1.2.1, h0.trans (h1.2.2.trans (MS.one (tuple_E p b K V s1 id u items vs h1.1)))⟩
+    | error o =>
+      simp only [ConclL] at h1
+      simp only []
+      exact (h1.2.prepend h0).operand_nonval h1.1
+  case ifE id u c t els =>
+    simp only [evalWith]
+    have hcw : c.used = true ∧ wfE c = true ∧ wfB (u && els.isSome) t = true ∧
+        (∀ eb, els = some eb → wfB (u && els.isSome) eb = true) := by
+      cases els <;> simp only [wfE, Bool.and_eq_true] at hw
+      · exact ⟨hw.1.1, hw.1.2, by simpa using hw.2, by intro eb h; cases h⟩
+      · exact ⟨hw.1.1.1, hw.1.1.2, by simpa using hw.1.2, by intro eb h; cases h; simpa using hw.2⟩
+    have hcx : exE false false c = true ∧ exB bk ck t = true ∧ (∀ eb, els = some eb → exB bk ck eb = true) := by
+      cases els <;> simp only [exE, Bool.and_eq_true] at hx
+      · exact ⟨hx.1, hx.2, by intro eb h; cases h⟩
+      · exact ⟨hx.1.1, hx.1.2, by intro eb h; cases h; exact hx.2⟩
+    have hcl : lvE c ≤ L ∧ lvB t ≤ L ∧ (∀ eb, els = some eb → lvB eb ≤ L) := by
+      cases els <;> simp only [lvE] at hl
+      · exact ⟨by omega, by omega, by intro eb h; cases h⟩
+      · exact ⟨by omega, by omega, by intro eb h; cases h; omega⟩
+    have h1 := (ih false false c σ out hσ hcl.1 hcw.2.1 hcx.1 b cs ((.PW, .ifE id u c t els) :: K) V).prepend
+      (MS.one (d_if_N p b K V σ id u c t els))
+    generalize evalWith ap p n σ out c = rc at h1 ⊢
+    obtain ⟨s1, o1, oc1⟩ := rc
+    cases oc1
+    case val cv =>
+      simp only []
+      simp only [Concl, hcw.1, pushIf, if_true] at h1
+      have hs1 := ne_nil_of_len h1.1 hσ
+      have hPW := if_PW p b K V s1 id u c t els cv
+      cases hb : cv.asBool with
+      | none =>
+        simp only [hb] at hPW ⊢
+        simp only [Concl]; exact ⟨_, h1.2, MErr.mk1 hPW⟩
+      | some bv =>
+        cases bv
+        · -- condition false
+          cases els with
+          | none =>
+            simp only [hb] at hPW ⊢
+            simp only [Concl]
+            match s1, hs1, h1 with
+            | y :: B, _, h1 =>
+              refine ⟨h1.1, h1.2.trans ((MS.one hPW).trans (MS.one ?_))⟩
+              have := if_E p b K V [] y B id u c t none
+              simpa [Expr.used] using this
+          | some eb =>
+            simp only [hb] at hPW ⊢
+            have hbr := sim_if_branch ih bk ck id u c t (some eb) eb s1 o1 hs1 (hcl.2.2 eb rfl)
+              (hcw.2.2.2 eb rfl) (hcx.2.2 eb rfl) b cs K V
+            have h2 := hbr.prepend (h1.2.trans (MS.one hPW))
+            rw [← h1.1]
+            revert h2
+            generalize runBlock (evalWith ap p n) [] eb s1 o1 = rb
+            obtain ⟨s2, o2, oc2⟩ := rb
+            cases oc2 <;> simp only [] <;> exact fun h => h
+        · -- condition true
+          simp only [hb] at hPW ⊢
+          have hbr := sim_if_branch ih bk ck id u c t els t s1 o1 hs1 hcl.2.1 hcw.2.2.1 hcx.2.1 b cs K V
+          have h2 := hbr.prepend (h1.2.trans (MS.one hPW))
+          rw [← h1.1]
+          exact h2
+    all_goals (simp only []; exact h1.operand_nonval (by intro v; simp))
+  case matchE id u sc cases =>
+    simp only [wfE, Bool.and_eq_true] at hw
+    simp only [exE, Bool.and_eq_true] at hx
+    simp only [lvE] at hl
+    simp only [evalWith]
+    have h1 := (ih false false sc σ out hσ (by omega) hw.1.2 hx.1 b cs ((.PW, .matchE id u sc cases) :: K) V).prepend
+      (MS.one (d_match_N p b K V σ id u sc cases))
+    generalize evalWith ap p n σ out sc = rc at h1 ⊢
+    obtain ⟨s1, o1, oc1⟩ := rc
+    cases oc1
+    case val sv =>
+      simp only [Concl, hw.1.1, pushIf, if_true] at h1
+      have hs1 := ne_nil_of_len h1.1 hσ
+      have hPW := match_PW p b K V s1 id u sc cases sv
+      cases sv <;> simp only [] at hPW ⊢ <;> (try (simp only [Concl]; exact ⟨_, h1.2, MErr.mk1 hPW⟩))
+      case enumV ty idx payload =>
+        cases hsel : selectCase p s1 ty idx payload cases with
+        | fail er =>
+          simp only [hsel] at hPW ⊢
+          simp only [Concl]; exact ⟨_, h1.2, MErr.mk1 hPW⟩
+        | take binds body =>
+          simp only [hsel] at hPW ⊢
+          obtain ⟨⟨vn, d, hmem⟩, hPW⟩ := hPW
+          have hbr := sim_match_body ih bk ck id u sc cases binds body s1 o1 hs1
+            (lvCases_mem L cases vn d body (by omega) hmem) (wfCases_mem u cases vn d body hw.2 hmem)
+            (exCases_mem bk ck cases vn d body hx.2 hmem) b cs K V
+          have h2 := hbr.prepend (h1.2.trans (MS.one hPW))
+          rw [← h1.1]
+          exact h2
+    all_goals (simp only []; exact h1.operand_nonval (by intro v; simp))
+  case call id u recv args =>
+    simp only [wfE, Bool.and_eq_true] at hw
+    simp only [exE, Bool.and_eq_true] at hx
+    simp only [lvE] at hl
+    simp only [evalWith]
+    have h1 := (ih false false recv σ out hσ (by omega) hw.1.2 hx.1 b cs ((.PN, .call id u recv args) :: K) V).prepend
+      (MS.one (d_call_N p b K V σ id u recv args))
+    generalize evalWith ap p n σ out recv = rr at h1 ⊢
+    obtain ⟨s1, o1, oc1⟩ := rr
+    cases oc1
+    case val fv =>
+      simp only []
+      simp only [Concl, hw.1.1, pushIf, if_true] at h1
+      have hs1 := ne_nil_of_len h1.1 hσ
+      have h0 := h1.2.trans (MS.one (call_PN p b K (fv :: V) s1 id u recv args))
+      have h2 := sim_rtl ih args s1 o1 hs1 (by omega) hw.2 hx.2 b cs ((.E, .call id u recv args) :: K) (fv :: V)
+      generalize evalRtl (evalWith ap p n) args s1 o1 = ra at h2 ⊢
+      obtain ⟨s2, o2, res⟩ := ra
+      cases res with
+      | ok vs =>
+        simp only [ConclL] at h2
+        simp only []
+        have h3 := hap s2 o2 fv vs id u recv args b cs K V (ne_nil_of_len h2.2.1 hs1) h2.1
+        have h4 := (h3.prepend (h0.trans h2.2.2)).weaken (bk := bk) (ck := ck)
+        unfold Concl at h4 ⊢
+        cases hr : (ap (evalWith ap p n) s2 o2 fv vs).outcome <;> simp only [hr] at h4 ⊢
+        · exact ⟨by omega, h4.2⟩
+        · exact ⟨h4.1, by omega, h4.2.2⟩
+        · exact ⟨h4.1, by omega, h4.2.2⟩
+        · exact h4
+        · exact h4
+      | error o =>
+        simp only [ConclL] at h2
+        simp only []
+        exact (h2.2.prepend h0).operand_nonval h2.1
+    all_goals (simp only []; exact h1.operand_nonval (by intro v; simp))
+  case whileE => simp [Expr.isLoop] at hk
+  case forE => simp [Expr.isLoop] at hk
+  case brk id u => exact absurd rfl (hk.2.1 id u)
+  case cont id u => exact absurd rfl (hk.2.2.1 id u)
+  case ret id u x => exact absurd rfl (hk.2.2.2.1 id u x)
+  case lambda id u ps body => exact absurd rfl (hk.2.2.2.2 id u ps body)
 
-theorem sim (ap : Ap) (p : Program) : ∀ n, IH p (evalWith ap p n)
+
+-- ==================================================================== (BS5.lean)
+
+theorem lv0_kinds (e : Expr) (h : lvE e ≤ 0) :
+    e.isLoop = false ∧ (∀ id u, e ≠ .brk id u) ∧ (∀ id u, e ≠ .cont id u) ∧ (∀ id u x, e ≠ .ret id u x) ∧
+      (∀ id u ps b, e ≠ .lambda id u ps b) := by
+  cases e
+  case ret id u x => cases x <;> simp [lvE] at h <;> omega
+  all_goals (simp [lvE, Expr.isLoop] at h ⊢ <;> (try omega))
+
+theorem sim0 (ap : Ap) (p : Program) (hap : ∀ ev, ApHolds p ap ev) : ∀ n, IH p 0 (evalWith ap p n)
   | 0 => by
-    intro e σ out hc hw b K V
-    simp [evalWith]
-  | n + 1 => sim_succ ap p n (sim ap p n)
+    intro bk ck e σ out hσ hl hw hx b cs K V
+    simp [evalWith, Concl]
+  | n + 1 => fun bk ck e σ out hσ hl hw hx =>
+    sim_succ_a (hap _) (sim0 ap p hap n) bk ck e σ out hσ hl hw hx (lv0_kinds e hl)
 
-theorem step_done (p : Program) (f : Frame) (v : Value) (vs : List Value) (t : Nat) (out : String)
-    (he : f.exprs = []) (hv : f.values = v :: vs) :
-    step (Q p [f] t out) = .done (setTop (Q p [f] t out) { f with values := vs }) v := by
-  simp [step, Q, he, hv]
-
-theorem runN_last (s s' : State) (n : Nat) (r : StepResult) (h : runN n s = .cont s') (hr : step s' = r)
-    (hnc : ∀ x, r ≠ .cont x) : runN (n + 1) s = r := by
-  rw [runN_add n 1 _ _ h]
-  cases r <;> simp_all [runN]
-
-theorem finish_done (p : Program) (s0 : State) (b : Frame) (n t : Nat) (v : Value) (V' : List Value)
-    (σ' : List Block) (out' : String)
-    (hn : runN n s0 = .cont (Q p [F b [] (v :: V') σ'] t out')) :
-    ∃ m s, runN m s0 = .done s v ∧ s.out = out' := by
-  have hd := step_done p (F b [] (v :: V') σ') v V' t out' rfl rfl
-  exact ⟨n + 1, _, runN_last _ _ n _ hn hd (by intro x; simp), by simp [setTop, Q]⟩
-
-/-- Toplevel expressions (all used): the values pile up on the value stack, the last one on top. -/
-theorem sim_top (p : Program) (ev : Ev) (ih : IH p ev) (b : Frame) :
+/-- Toplevel expressions (all used): the values pile up on the value stack, the last one on top;
+`return` at top level finishes the frame. -/
+theorem sim_top {p : Program} {L : Nat} {ev : Ev} (ih : IH p L ev) (b : Frame) (cs : List Frame) :
     ∀ (es : List Expr) (last : Value) (σ : List Block) (out : String) (V : List Value),
-      covB es = true → wfAll es = true →
+      σ ≠ [] → lvB es ≤ L → wfAll es = true → exB false false es = true →
       match (evalSeq ev last es σ out).outcome with
-      | .val v => ∃ V', MS p (F b (es.map (fun e => (St.N, e))) (last :: V) σ) out
-                    (F b [] (v :: V') (evalSeq ev last es σ out).scopes) (evalSeq ev last es σ out).out
-      | .err er => ∃ g, MS p (F b (es.map (fun e => (St.N, e))) (last :: V) σ) out g (evalSeq ev last es σ out).out ∧ MErr p g er
-      | .brk => False | .cont => False | .ret _ => False
+      | .val v => ∃ V' B', MS p (F b (es.map (fun e => (St.N, e))) (last :: V) σ :: cs) out
+                    (F b [] (v :: V') B' :: cs) (evalSeq ev last es σ out).out
+      | .ret v => ∃ V' B', MS p (F b (es.map (fun e => (St.N, e))) (last :: V) σ :: cs) out
+                    (F b [] (v :: V') B' :: cs) (evalSeq ev last es σ out).out
+      | .err er => ∃ g, MS p (F b (es.map (fun e => (St.N, e))) (last :: V) σ :: cs) out (g :: cs)
+                    (evalSeq ev last es σ out).out ∧ MErr p g er
+      | .brk => False
+      | .cont => False
       | _ => True
-  | [], last, σ, out, V, _, _ => by
+  | [], last, σ, out, V, _, _, _, _ => by
       simp only [evalSeq, List.map]
-      exact ⟨V, MS.refl _ _⟩
-  | e :: rest, last, σ, out, V, hc, hw => by
-      simp only [covB, wfAll, Bool.and_eq_true] at hc hw
-      have h := (ih e σ out hc.1 hw.1.2).use hw.1.1 b (rest.map (fun e => (St.N, e))) (last :: V)
+      exact ⟨V, σ, MS.refl _ _⟩
+  | e :: rest, last, σ, out, V, hσ, hl, hw, hx => by
+      have hl2 := lvB_cons e rest L hl
+      simp only [wfAll, exB, Bool.and_eq_true] at hw hx
+      have h := ih false false e σ out hσ hl2.1 hw.1.2 hx.1 b cs (rest.map (fun e => (St.N, e))) (last :: V)
       simp only [evalSeq, List.map]
-      revert h
-      cases hr : (ev σ out e).outcome <;> dsimp only <;> intro h
+      generalize ev σ out e = r1 at h ⊢
+      obtain ⟨s1, o1, oc⟩ := r1
+      cases oc
       case val v =>
-        have h2 := sim_top p ev ih b rest v (ev σ out e).scopes (ev σ out e).out (last :: V) hc.2 hw.2
+        simp only [Concl, hw.1.1, pushIf, if_true] at h
+        have h2 := sim_top ih b cs rest v s1 o1 (last :: V) (ne_nil_of_len h.1 hσ) hl2.2 hw.2 hx.2
+        simp only []
         revert h2
-        cases (evalSeq ev v rest (ev σ out e).scopes (ev σ out e).out).outcome <;> dsimp only <;> intro h2
+        cases (evalSeq ev v rest s1 o1).outcome <;> simp only [] <;> intro h2
         all_goals first
           | exact h2
-          | (obtain ⟨V', h3⟩ := h2; exact ⟨V', h.2.trans h3⟩)
+          | (obtain ⟨V', B', h3⟩ := h2; exact ⟨V', B', h.2.trans h3⟩)
           | (obtain ⟨g, h3, h4⟩ := h2; exact ⟨g, h.2.trans h3, h4⟩)
-      all_goals first
-        | exact h
-        | (rw [hr]; exact h)
-        | (simp only [hr]; exact h)
+      case brk => simp only [Concl] at h; exact absurd h.1 (by simp)
+      case cont => simp only [Concl] at h; exact absurd h.1 (by simp)
+      case ret v => simp only [Concl] at h ⊢; exact h
+      case err er => simp only [Concl] at h ⊢; exact h
+      all_goals trivial
+
+/-- From a program-level run of the reference interpreter to a run of `Machine.step`. -/
+theorem refines_of_IH {p : Program} {L : Nat} {ev : Ev} (ih : IH p L ev)
+    (hl : lvB p.toplevel ≤ L) (hw : wfAll p.toplevel = true) (hx : exB false false p.toplevel = true) :
+    match runProgramWith ev p with
+    | (out, .val v) => ∃ n s, runN n (Machine.init p [] none none) = .done s v ∧ s.out = out
+    | (out, .err e) => ∃ n s, runN n (Machine.init p [] none none) = .error s e ∧ s.out = out
+    | _ => True := by
+  have hinit : Machine.init p [] none none =
+      Q p [F (initFrame []) (p.toplevel.map (fun e => (St.N, e))) [vUnit] [[]]] 0 "" := rfl
+  have h := sim_top ih (initFrame []) [] p.toplevel vUnit [[]] "" [] (by simp) hl hw hx
+  rw [hinit]
+  simp only [runProgramWith]
+  revert h
+  cases hr : (evalSeq ev vUnit p.toplevel [[]] "").outcome <;> simp only [] <;> intro h
+  case val v =>
+    obtain ⟨V', B', h1⟩ := h
+    obtain ⟨n, t', hn⟩ := MS_sound h1 0
+    exact finish_done p _ _ n _ v V' _ _ hn
+  case ret v =>
+    obtain ⟨V', B', h1⟩ := h
+    obtain ⟨n, t', hn⟩ := MS_sound h1 0
+    exact finish_done p _ _ n _ v V' _ _ hn
+  case err er =>
+    obtain ⟨g, h1, h2⟩ := h
+    obtain ⟨n, t', hn⟩ := MS_sound h1 0
+    obtain ⟨s', hs, ho⟩ := step_err p g [] t' _ er h2
+    exact ⟨n + 1, s', runN_last _ _ n _ hn hs (by intro x; simp), ho⟩
+  all_goals trivial
+
+
+-- ==================================================================== (BS6.lean)
+
+-- ------------------------------------------------------------------ stage (b): loops and exits
+
+/-- Errors, `return`, `unsupported`, out-of-fuel: the conclusion does not depend on the
+continuation, nor on the scopes of the result. -/
+theorem Concl.indep {p : Program} {bk ck bk' ck' : Bool} {A : List Frame} {b : Frame} {cs : List Frame}
+    {K K' : List (St × Expr)} {V V' : List Value} {n n' : Nat} {out : String} {used used' : Bool} {r r' : Res}
+    (h : Concl p bk ck A b cs K V n out used r) (ho : r'.out = r.out) (hc : r'.outcome = r.outcome)
+    (hnv : ∀ v, r.outcome ≠ .val v) (hnb : r.outcome ≠ .brk) (hnc : r.outcome ≠ .cont) :
+    Concl p bk' ck' A b cs K' V' n' out used' r' := by
+  unfold Concl at h ⊢
+  rw [hc, ho]
+  cases hr : r.outcome <;> simp only [hr] at h ⊢
+  · exact absurd hr (hnv _)
+  · exact absurd hr hnb
+  · exact absurd hr hnc
+  · exact h
+  · exact h
+
+theorem d_brk_any (p : Program) (f : Frame) (id : Nat) (u : Bool) :
+    dispatch p f .N (.brk id u) = dispatch p f .N (.brk 0 false) := by
+  simp only [dispatch]
+
+theorem d_cont_any (p : Program) (f : Frame) (id : Nat) (u : Bool) :
+    dispatch p f .N (.cont id u) = dispatch p f .N (.cont 0 false) := by
+  simp only [dispatch]
+
+theorem sim_brk (p : Program) (bk ck : Bool) (id : Nat) (u : Bool) (σ : List Block) (out : String)
+    (hx : exE bk ck (.brk id u) = true) : Holds p bk ck (.brk id u) σ out ⟨σ, out, .brk⟩ := by
+  intro b cs K V
+  simp only [exE] at hx
+  simp only [Concl]
+  refine ⟨hx, trivial, fun G hG => MS.one ?_⟩
+  rw [d_brk_any]; exact hG
+
+theorem sim_cont (p : Program) (bk ck : Bool) (id : Nat) (u : Bool) (σ : List Block) (out : String)
+    (hx : exE bk ck (.cont id u) = true) : Holds p bk ck (.cont id u) σ out ⟨σ, out, .cont⟩ := by
+  intro b cs K V
+  simp only [exE] at hx
+  simp only [Concl]
+  refine ⟨hx, trivial, fun G hG => MS.one ?_⟩
+  rw [d_cont_any]; exact hG
+
+theorem d_while_N (p : Program) (b : Frame) (K : List (St × Expr)) (V : List Value) (σ : List Block) (id : Nat) (u : Bool)
+    (c : Expr) (body : List Expr) :
+    dispatch p (F b K V σ) .N (.whileE id u c body) =
+      .ok (F b ((.N, c) :: (.PW, .whileE id u c body) :: K) V σ) := by
+  simp [dispatch, Frame.pushE, F]
+
+theorem while_PW (p : Program) (b : Frame) (K : List (St × Expr)) (V : List Value) (σ : List Block) (id : Nat) (u : Bool)
+    (c : Expr) (body : List Expr) (cv : Value) :
+    match cv.asBool with
+    | none => ∃ f' st' vals, dispatch p (F b K (cv :: V) σ) .PW (.whileE id u c body) =
+        .err f' st' vals (.typeError "Bool")
+    | some true => dispatch p (F b K (cv :: V) σ) .PW (.whileE id u c body) =
+        .ok (F b (body.map (fun e => (St.N, e)) ++ (.PD, .whileE id u c body) :: K) V ([] :: σ))
+    | some false => dispatch p (F b K (cv :: V) σ) .PW (.whileE id u c body) =
+        .ok (F b ((.E, .whileE id u c body) :: K) (pushIf u vUnit V) σ) := by
+  have hF : ∀ V', ({ F b K (cv :: V) σ with values := V' } : Frame) = F b K V' σ := fun _ => rfl
+  have hP : ∀ V' st, (F b K V' σ).pushE st (.whileE id u c body) = F b ((st, .whileE id u c body) :: K) V' σ :=
+    fun _ _ => rfl
+  cases h : cv.asBool with
+  | none => simp only [dispatch, F_values, hF, h]; exact ⟨_, _, _, rfl⟩
+  | some bv =>
+    cases bv
+    · simp only [dispatch, F_values, hF, h, hP, F_pushVIf, Expr.used]
+    · simp only [dispatch, F_values, hF, h, hP, evalBlock_F0]
+      simp [pushIf]
+
+theorem while_PD (p : Program) (b : Frame) (K : List (St × Expr)) (V : List Value) (x y : Block) (B : List Block)
+    (id : Nat) (u : Bool) (c : Expr) (body : List Expr) :
+    dispatch p (F b K V (x :: y :: B)) .PD (.whileE id u c body) =
+      .ok (F b ((.N, c) :: (.PW, .whileE id u c body) :: K) V (y :: B)) := by
+  simp only [dispatch, popBlock_F]; rfl
+
+theorem while_E (p : Program) (b : Frame) (K : List (St × Expr)) (V : List Value) (σ : List Block)
+    (id : Nat) (u : Bool) (c : Expr) (body : List Expr) :
+    dispatch p (F b K V σ) .E (.whileE id u c body) = .ok (F b K V σ) := by
+  simp [dispatch]
+
+theorem while_brk (p : Program) (b : Frame) (K : List (St × Expr)) (V : List Value) (x y : Block) (B : List Block)
+    (id : Nat) (u : Bool) (c : Expr) (body : List Expr) :
+    dispatch p (F b ((.PD, .whileE id u c body) :: K) V (x :: y :: B)) .N (.brk 0 false) =
+      .ok (F b ((.E, .whileE id u c body) :: K) (pushIf u vUnit V) (y :: B)) := by
+  simp [dispatch, F_exprs, F_values, F_blocks, evalBreakLoop, popBlocks1, Expr.isLoop, Expr.used, F, Frame.pushVIf,
+    Frame.pushV, pushIf]
+  cases u <;> rfl
+
+theorem while_cont (p : Program) (b : Frame) (K : List (St × Expr)) (V : List Value) (B : List Block)
+    (id : Nat) (u : Bool) (c : Expr) (body : List Expr) :
+    dispatch p (F b ((.PD, .whileE id u c body) :: K) V B) .N (.cont 0 false) =
+      .ok (F b ((.PD, .whileE id u c body) :: K) V B) := by
+  simp [dispatch, F_exprs, F_values, F_blocks, evalContinueLoop, Expr.isLoop, F]
+
+/-- The `while` loop from the state after its `N` step (condition about to be evaluated). -/
+def HW (p : Program) (L : Nat) (ev : Ev) : Prop :=
+  ∀ (bk ck : Bool) (id : Nat) (u : Bool) (c : Expr) (body : List Expr) (σ : List Block) (out : String),
+    σ ≠ [] → lvE (.whileE id u c body) ≤ L → wfE (.whileE id u c body) = true →
+    exE bk ck (.whileE id u c body) = true →
+    ∀ (b : Frame) (cs : List Frame) (K : List (St × Expr)) (V : List Value),
+      Concl p bk ck (F b ((.N, c) :: (.PW, .whileE id u c body) :: K) V σ :: cs) b cs K V σ.length out u
+        (ev σ out (.whileE id u c body))
+
+theorem Concl.cast_n {p : Program} {bk ck : Bool} {A : List Frame} {b : Frame} {cs : List Frame}
+    {K : List (St × Expr)} {V : List Value} {n n' : Nat} {out : String} {used : Bool} {r : Res}
+    (h : Concl p bk ck A b cs K V n out used r) (hn : n = n') : Concl p bk ck A b cs K V n' out used r := hn ▸ h
+
+theorem while_step {ap : Ap} {p : Program} {L n : Nat} (ih : IH p L (evalWith ap p n))
+    (hw : HW p L (evalWith ap p n)) : HW p L (evalWith ap p (n + 1)) := by
+  intro bk ck id u c body σ out hσ hl hwf hx b cs K V
+  have hl0 := hl
+  have hwf0 := hwf
+  have hx0 := hx
+  simp only [lvE] at hl
+  simp only [wfE, Bool.and_eq_true] at hwf
+  simp only [exE, Bool.and_eq_true] at hx
+  simp only [evalWith]
+  have h1 := ih false false c σ out hσ (by omega) hwf.1.2 hx.1 b cs ((.PW, .whileE id u c body) :: K) V
+  generalize evalWith ap p n σ out c = rc at h1 ⊢
+  obtain ⟨s1, o1, oc1⟩ := rc
+  cases oc1
+  case val cv =>
+    simp only []
+    simp only [Concl, hwf.1.1, pushIf, if_true] at h1
+    have hs1 := ne_nil_of_len h1.1 hσ
+    have hn1 : 1 ≤ s1.length := by
+      cases s1 with
+      | nil => exact absurd rfl hs1
+      | cons _ _ => simp
+    have hPW := while_PW p b K V s1 id u c body cv
+    cases hb : cv.asBool with
+    | none =>
+      simp only [hb] at hPW ⊢
+      simp only [Concl]; exact ⟨_, h1.2, MErr.mk1 hPW⟩
+    | some bv =>
+      cases bv
+      · simp only [hb] at hPW ⊢
+        simp only [Concl]
+        exact ⟨h1.1, h1.2.trans ((MS.one hPW).trans (MS.one (while_E p b K _ s1 id u c body)))⟩
+      · simp only [hb] at hPW ⊢
+        have hseq := sim_seq ih false true true body vUnit ([] :: s1) o1 (by simp) (by omega) hwf.2 hx.2 b cs
+          ((.PD, .whileE id u c body) :: K) V
+        have h2 := hseq.prepend (h1.2.trans (MS.one hPW))
+        simp only [runBlock, declareAll, List.foldl]
+        generalize evalSeq (evalWith ap p n) vUnit body ([] :: s1) o1 = rs at h2 ⊢
+        obtain ⟨s2, o2, oc2⟩ := rs
+        cases oc2
+        case val v =>
+          simp only []
+          simp only [Concl, Bool.false_and, pushIf, Bool.false_eq_true, if_false] at h2
+          obtain ⟨x, y, B, hs, hlen⟩ := two_of_len s2 s1.length (by simpa using h2.1) hn1
+          subst hs
+          simp only [List.drop_succ_cons, List.drop_zero]
+          have h3 := hw bk ck id u c body (y :: B) o2 (by simp) hl0 hwf0 hx0 b cs K V
+          exact (h3.prepend (h2.2.trans (MS.one (while_PD p b K V x y B id u c body)))).cast_n (by omega)
+        case cont =>
+          simp only []
+          simp only [Concl] at h2
+          obtain ⟨x, y, B, hs, hlen⟩ := two_of_len s2 s1.length (by simpa using h2.2.1) hn1
+          subst hs
+          simp only [List.drop_succ_cons, List.drop_zero]
+          have h3 := hw bk ck id u c body (y :: B) o2 (by simp) hl0 hwf0 hx0 b cs K V
+          have hG := h2.2.2 _ (while_cont p b K V (x :: y :: B) id u c body)
+          exact (h3.prepend (hG.trans (MS.one (while_PD p b K V x y B id u c body)))).cast_n (by omega)
+        case brk =>
+          simp only []
+          simp only [Concl] at h2 ⊢
+          obtain ⟨x, y, B, hs, hlen⟩ := two_of_len s2 s1.length (by simpa using h2.2.1) hn1
+          subst hs
+          simp only [List.drop_succ_cons, List.drop_zero]
+          have hG := h2.2.2 _ (while_brk p b K V x y B id u c body)
+          exact ⟨by omega, hG.trans (MS.one (while_E p b K _ (y :: B) id u c body))⟩
+        all_goals (
+          simp only []
+          exact h2.indep rfl rfl (by intro v; simp) (by simp) (by simp))
+  all_goals (simp only []; exact h1.operand_nonval (by intro v; simp))
+
+-- ------------------------------------------------------------------ for
+
+theorem i64_succ (i : Int64) (k : Nat) (h : i.toInt = k) (hk : k + 1 < 9223372036854775808) :
+    (i + 1).toInt = (k + 1 : Nat) := by
+  rw [Int64.toInt_add, h, Int64.toInt_one]
+  rw [Int.bmod_eq_of_le] <;> omega
+
+theorem bindDest_spec (dest : Dest) (v : Value) (σ : List Block) :
+    match destructure dest v (.typeError "Tuple") with
+    | .ok binds => ∃ bs, bindDest dest v = .ok bs ∧
+        bs.foldl (fun s kv => addNew s kv.1 kv.2) σ = declareAll σ binds
+    | .error er => bindDest dest v = .error er := by
+  cases dest with
+  | sym n =>
+    simp only [destructure, bindDest, declareAll]
+    by_cases hn : n = "_"
+    · simp [hn, addNew]
+    · simp [hn]
+  | destr names =>
+    cases v <;> simp only [destructure, bindDest]
+    case tuple items =>
+      by_cases hl : items.length = names.length
+      · simp [hl, declareAll, foldl_addNew_filter]
+      · simp [hl]
+
+theorem d_for_N (p : Program) (b : Frame) (K : List (St × Expr)) (V : List Value) (σ : List Block) (id : Nat) (u : Bool)
+    (dest : Dest) (it : Expr) (body : List Expr) :
+    dispatch p (F b K V σ) .N (.forE id u dest it body) =
+      .ok (F b ((.N, it) :: (.PW, .forE id u dest it body) :: K) (.int 0 :: V) σ) := by
+  simp [dispatch, Frame.pushE, Frame.pushV, F]
+
+theorem for_PW_nonlist (p : Program) (b : Frame) (K : List (St × Expr)) (V : List Value) (σ : List Block) (id : Nat)
+    (u : Bool) (dest : Dest) (it : Expr) (body : List Expr) (iv : Value) (idx : Int64)
+    (h : ∀ items, iv ≠ .list items) :
+    ∃ f' st' vals, dispatch p (F b K (iv :: .int idx :: V) σ) .PW (.forE id u dest it body) =
+      .err f' st' vals (.typeError "List") := by
+  cases iv <;> simp only [dispatch, F_values] <;> (try exact ⟨_, _, _, rfl⟩)
+  case list items => exact absurd rfl (h items)
+
+theorem for_PW_done (p : Program) (b : Frame) (K : List (St × Expr)) (V : List Value) (σ : List Block) (id : Nat)
+    (u : Bool) (dest : Dest) (it : Expr) (body : List Expr) (items : List Value) (idx : Int64)
+    (h : idx.toInt = (items.length : Nat)) :
+    dispatch p (F b K (.list items :: .int idx :: V) σ) .PW (.forE id u dest it body) =
+      .ok (F b ((.E, .forE id u dest it body) :: K) (pushIf u vUnit V) ([] :: σ)) := by
+  have hc : (idx.toInt.toNat ≥ items.length ∨ idx.toInt < 0) := by left; rw [h]; simp
+  simp only [dispatch, F_values, hc, if_true, Expr.used]
+  simp [F, Frame.pushE, Frame.pushVIf, Frame.pushV, pushIf]
+  cases u <;> rfl
+
+theorem for_PW_item (p : Program) (b : Frame) (K : List (St × Expr)) (V : List Value) (σ : List Block) (id : Nat)
+    (u : Bool) (dest : Dest) (it : Expr) (body : List Expr) (items : List Value) (idx : Int64) (k : Nat) (x : Value)
+    (h : idx.toInt = (k : Nat)) (hx : items[k]? = some x) :
+    match destructure dest x (.typeError "Tuple") with
+    | .ok binds => dispatch p (F b K (.list items :: .int idx :: V) σ) .PW (.forE id u dest it body) =
+        .ok (F b (body.map (fun e => (St.N, e)) ++ (.PD, .forE id u dest it body) :: K)
+          (.list items :: .int (idx + 1) :: V) (declareAll ([] :: σ) binds))
+    | .error er => ∃ f' st' vals,
+        dispatch p (F b K (.list items :: .int idx :: V) σ) .PW (.forE id u dest it body) = .err f' st' vals er := by
+  have hk : k < items.length := by
+    rcases Nat.lt_or_ge k items.length with h1 | h1
+    · exact h1
+    · rw [List.getElem?_eq_none h1] at hx; cases hx
+  have hc : ¬ (idx.toInt.toNat ≥ items.length ∨ idx.toInt < 0) := by
+    rw [h]; simp; omega
+  have hn : idx.toInt.toNat = k := by rw [h]; simp
+  have hc' : ¬ (k ≥ items.length ∨ idx.toInt < 0) := by rw [h]; simp; omega
+  have hF : ∀ V', ({ F b K (.list items :: .int idx :: V) σ with values := V' } : Frame) = F b K V' σ := fun _ => rfl
+  have hb := bindDest_spec dest x ([] :: σ)
+  cases hd : destructure dest x (.typeError "Tuple") with
+  | error er =>
+    simp only [hd] at hb
+    simp only [dispatch, F_values, hc, hc', if_false, hn, hx, hb]
+    exact ⟨_, _, _, rfl⟩
+  | ok binds =>
+    simp only [hd] at hb
+    obtain ⟨bs, hb1, hb2⟩ := hb
+    simp only [dispatch, F_values, hc, hc', if_false, hn, hx, hb1, hF]
+    have : ((((F b K V σ).pushE .PD (.forE id u dest it body)).pushV (.int (idx + 1))).pushV (.list items)) =
+        F b ((.PD, .forE id u dest it body) :: K) (.list items :: .int (idx + 1) :: V) σ := rfl
+    rw [this, evalBlock_F]
+    simp only [declareAll] at hb2 ⊢
+    rw [hb2]
+    simp [pushIf]
+
+theorem for_PD (p : Program) (b : Frame) (K : List (St × Expr)) (V : List Value) (x y : Block) (B : List Block)
+    (id : Nat) (u : Bool) (dest : Dest) (it : Expr) (body : List Expr) :
+    dispatch p (F b K V (x :: y :: B)) .PD (.forE id u dest it body) =
+      .ok (F b ((.PW, .forE id u dest it body) :: K) V (y :: B)) := by
+  simp only [dispatch, popBlock_F]; rfl
+
+theorem for_E (p : Program) (b : Frame) (K : List (St × Expr)) (V : List Value) (x y : Block) (B : List Block)
+    (id : Nat) (u : Bool) (dest : Dest) (it : Expr) (body : List Expr) :
+    dispatch p (F b K V (x :: y :: B)) .E (.forE id u dest it body) = .ok (F b K V (y :: B)) := by
+  simp only [dispatch, popBlock_F]
+
+theorem for_brk (p : Program) (b : Frame) (K : List (St × Expr)) (V : List Value) (v1 v2 : Value) (B : List Block)
+    (id : Nat) (u : Bool) (dest : Dest) (it : Expr) (body : List Expr) :
+    dispatch p (F b ((.PD, .forE id u dest it body) :: K) (v1 :: v2 :: V) B) .N (.brk 0 false) =
+      .ok (F b ((.E, .forE id u dest it body) :: K) (pushIf u vUnit V) B) := by
+  simp [dispatch, F_exprs, F_values, F_blocks, evalBreakLoop, Expr.isLoop, Expr.used, F, Frame.pushVIf,
+    Frame.pushV, pushIf]
+  cases u <;> rfl
+
+theorem for_cont (p : Program) (b : Frame) (K : List (St × Expr)) (V : List Value) (B : List Block)
+    (id : Nat) (u : Bool) (dest : Dest) (it : Expr) (body : List Expr) :
+    dispatch p (F b ((.PD, .forE id u dest it body) :: K) V B) .N (.cont 0 false) =
+      .ok (F b ((.PD, .forE id u dest it body) :: K) V B) := by
+  simp [dispatch, F_exprs, F_values, F_blocks, evalContinueLoop, Expr.isLoop, F]
+
+/-- The `for` loop from its `PW` state: iterated list and index on the value stack, `xs` still
+to be visited. -/
+theorem for_loop {p : Program} {L : Nat} {ev : Ev} (ih : IH p L ev) (bk ck : Bool)
+    (id : Nat) (u : Bool) (dest : Dest) (it : Expr) (body : List Expr)
+    (hl : lvB body ≤ L) (hwb : wfB false body = true) (hxb : exB true true body = true)
+    (items : List Value) (hlen : items.length < 9223372036854775808) :
+    ∀ (xs pre : List Value) (idx : Int64) (σ : List Block) (out : String),
+      items = pre ++ xs → idx.toInt = (pre.length : Nat) → σ ≠ [] →
+      ∀ (b : Frame) (cs : List Frame) (K : List (St × Expr)) (V : List Value),
+      Concl p bk ck (F b ((.PW, .forE id u dest it body) :: K) (.list items :: .int idx :: V) σ :: cs) b cs K V
+        σ.length out u (forLoop ev dest body xs σ out)
+  | [], pre, idx, σ, out, hit, hidx, hσ, b, cs, K, V => by
+      have hpl : pre.length = items.length := by rw [hit]; simp
+      rw [hpl] at hidx
+      simp only [forLoop, Concl]
+      match σ, hσ with
+      | y :: B, _ =>
+        exact ⟨trivial, (MS.one (for_PW_done p b K V (y :: B) id u dest it body items idx hidx)).trans
+          (MS.one (for_E p b K _ [] y B id u dest it body))⟩
+  | x :: xs, pre, idx, σ, out, hit, hidx, hσ, b, cs, K, V => by
+      have hx : items[pre.length]? = some x := by rw [hit]; simp
+      have hk : pre.length < items.length := by rw [hit]; simp
+      have hPW := for_PW_item p b K V σ id u dest it body items idx pre.length x hidx hx
+      simp only [forLoop]
+      cases hd : destructure dest x (.typeError "Tuple") with
+      | error er =>
+        simp only [hd] at hPW ⊢
+        simp only [Concl]; exact ⟨_, MS.refl _ _, MErr.mk1 hPW⟩
+      | ok binds =>
+        simp only [hd] at hPW ⊢
+        have hdl : (declareAll ([] :: σ) binds).length = σ.length + 1 := by simp [declareAll_length]
+        have hne : declareAll ([] :: σ) binds ≠ [] := by
+          intro h; rw [h] at hdl; simp at hdl
+        have hn1 : 1 ≤ σ.length := by
+          cases σ with
+          | nil => exact absurd rfl hσ
+          | cons _ _ => simp
+        have hseq := sim_seq ih false true true body vUnit (declareAll ([] :: σ) binds) out hne hl hwb hxb b cs
+          ((.PD, .forE id u dest it body) :: K) (.list items :: .int (idx + 1) :: V)
+        rw [hdl] at hseq
+        have h2 := hseq.prepend (MS.one hPW)
+        have hnext : ∀ (y : Block) (B : List Block) (o2 : String), (y :: B).length = σ.length →
+            Concl p bk ck (F b ((.PW, .forE id u dest it body) :: K) (.list items :: .int (idx + 1) :: V) (y :: B) :: cs)
+              b cs K V σ.length o2 u (forLoop ev dest body xs (y :: B) o2) := by
+          intro y B o2 hyl
+          have := for_loop ih bk ck id u dest it body hl hwb hxb items hlen xs (pre ++ [x]) (idx + 1) (y :: B) o2
+            (by rw [hit]; simp) (by simpa using i64_succ idx pre.length hidx (by omega)) (by simp) b cs K V
+          exact this.cast_n hyl
+        simp only [runBlock]
+        generalize evalSeq ev vUnit body (declareAll ([] :: σ) binds) out = rs at h2 ⊢
+        obtain ⟨s2, o2, oc2⟩ := rs
+        cases oc2
+        case val v =>
+          simp only []
+          simp only [Concl, Bool.false_and, pushIf, Bool.false_eq_true, if_false] at h2
+          obtain ⟨x', y, B, hs, hlen2⟩ := two_of_len s2 σ.length h2.1 hn1
+          subst hs
+          simp only [List.drop_succ_cons, List.drop_zero]
+          exact (hnext y B o2 hlen2).prepend (h2.2.trans (MS.one (for_PD p b K _ x' y B id u dest it body)))
+        case cont =>
+          simp only []
+          simp only [Concl] at h2
+          obtain ⟨x', y, B, hs, hlen2⟩ := two_of_len s2 σ.length h2.2.1 hn1
+          subst hs
+          simp only [List.drop_succ_cons, List.drop_zero]
+          have hG := h2.2.2 _ (for_cont p b K _ (x' :: y :: B) id u dest it body)
+          exact (hnext y B o2 hlen2).prepend (hG.trans (MS.one (for_PD p b K _ x' y B id u dest it body)))
+        case brk =>
+          simp only []
+          simp only [Concl] at h2 ⊢
+          obtain ⟨x', y, B, hs, hlen2⟩ := two_of_len s2 σ.length h2.2.1 hn1
+          subst hs
+          simp only [List.drop_succ_cons, List.drop_zero]
+          have hG := h2.2.2 _ (for_brk p b K V _ _ (x' :: y :: B) id u dest it body)
+          exact ⟨hlen2, hG.trans (MS.one (for_E p b K _ x' y B id u dest it body))⟩
+        all_goals (
+          simp only []
+          exact h2.indep rfl rfl (by intro v; simp) (by simp) (by simp))
+
+/-- One more unit of fuel, stage (b) node kinds (`while` through `HW`). -/
+theorem sim_succ_b {ap : Ap} {p : Program} {L n : Nat}
+    (ih : IH p L (evalWith ap p n)) (hw1 : HW p L (evalWith ap p (n + 1)))
+    (bk ck : Bool) (e : Expr) (σ : List Block) (out : String) (hσ : σ ≠ []) (hl : lvE e ≤ L)
+    (hw : wfE e = true) (hx : exE bk ck e = true)
+    (hk : e.isLoop = true ∨ (∃ id u, e = .brk id u) ∨ (∃ id u, e = .cont id u)) :
+    Holds p bk ck e σ out (evalWith ap p (n + 1) σ out e) := by
+  rcases hk with hk | ⟨id, u, rfl⟩ | ⟨id, u, rfl⟩
+  · cases e <;> simp [Expr.isLoop] at hk
+    case whileE id u c body =>
+      intro b cs K V
+      exact (hw1 bk ck id u c body σ out hσ hl hw hx b cs K V).prepend (MS.one (d_while_N p b K V σ id u c body))
+    case forE id u dest it body =>
+      intro b cs K V
+      simp only [lvE] at hl
+      simp only [wfE, Bool.and_eq_true] at hw
+      simp only [exE, Bool.and_eq_true] at hx
+      simp only [evalWith]
+      have h1 := (ih false false it σ out hσ (by omega) hw.1.2 hx.1 b cs ((.PW, .forE id u dest it body) :: K)
+        (.int 0 :: V)).prepend (MS.one (d_for_N p b K V σ id u dest it body))
+      generalize evalWith ap p n σ out it = ri at h1 ⊢
+      obtain ⟨s1, o1, oc1⟩ := ri
+      cases oc1
+      case val iv =>
+        simp only [Concl, hw.1.1, pushIf, if_true] at h1
+        have hs1 := ne_nil_of_len h1.1 hσ
+        cases iv <;> simp only [] <;>
+          (try (simp only [Concl]
+                exact ⟨_, h1.2, MErr.mk1 (for_PW_nonlist p b K V s1 id u dest it body _ 0 (by intro items; simp))⟩))
+        case list items =>
+          by_cases hlen : items.length < 9223372036854775808
+          · simp only [hlen, if_true]
+            have h2 := for_loop ih bk ck id u dest it body (by omega) hw.2 hx.2 items hlen items [] 0 s1 o1
+              (by simp) (by simp) hs1 b cs K V
+            exact (h2.prepend h1.2).cast_n h1.1
+          · simp only [hlen, if_false]; simp [Concl]
+      all_goals (simp only []; exact h1.operand_nonval (by intro v; simp))
+  · simp only [evalWith]; exact sim_brk p bk ck id u σ out hx
+  · simp only [evalWith]; exact sim_cont p bk ck id u σ out hx
+
+
+-- ==================================================================== (BS7.lean)
+
+theorem kind_split (e : Expr) :
+    (e.isLoop = true ∨ (∃ id u, e = .brk id u) ∨ (∃ id u, e = .cont id u)) ∨
+    ((∃ id u x, e = .ret id u x) ∨ (∃ id u ps b, e = .lambda id u ps b)) ∨
+    (e.isLoop = false ∧ (∀ id u, e ≠ .brk id u) ∧ (∀ id u, e ≠ .cont id u) ∧ (∀ id u x, e ≠ .ret id u x) ∧
+      (∀ id u ps b, e ≠ .lambda id u ps b)) := by
+  cases e <;> simp [Expr.isLoop]
+
+theorem lv1_not_c (e : Expr) (h : lvE e ≤ 1) :
+    ¬ ((∃ id u x, e = .ret id u x) ∨ (∃ id u ps b, e = .lambda id u ps b)) := by
+  rintro (⟨id, u, x, rfl⟩ | ⟨id, u, ps, b, rfl⟩)
+  · cases x <;> simp [lvE] at h <;> omega
+  · simp [lvE] at h; omega
+
+theorem IH_zero (ap : Ap) (p : Program) (L : Nat) : IH p L (evalWith ap p 0) := by
+  intro bk ck e σ out hσ hl hw hx b cs K V
+  simp [evalWith, Concl]
+
+theorem HW_zero (ap : Ap) (p : Program) (L : Nat) : HW p L (evalWith ap p 0) := by
+  intro bk ck id u c body σ out hσ hl hw hx b cs K V
+  simp [evalWith, Concl]
+
+/-- Stages (a) + (b): the simulation for every fuel. -/
+theorem sim1 (ap : Ap) (p : Program) (hap : ∀ ev, ApHolds p ap ev) :
+    ∀ n, IH p 1 (evalWith ap p n) ∧ HW p 1 (evalWith ap p n)
+  | 0 => ⟨IH_zero ap p 1, HW_zero ap p 1⟩
+  | n + 1 => by
+    obtain ⟨ih, hw⟩ := sim1 ap p hap n
+    have hw1 := while_step ih hw
+    refine ⟨?_, hw1⟩
+    intro bk ck e σ out hσ hl hwf hx
+    rcases kind_split e with hk | hk | hk
+    · exact sim_succ_b ih hw1 bk ck e σ out hσ hl hwf hx hk
+    · exact absurd hk (lv1_not_c e hl)
+    · exact sim_succ_a (hap _) ih bk ck e σ out hσ hl hwf hx hk
+
 
 end BigStepLemmas
